@@ -5,17 +5,20 @@ import ast
 from ..rulekit import *
 from ..cfg import CFG
 from ..norm import Normalizer, Poly
+from . import _kit_c08 as K
 
 R = Rules(
     "C08",
     explanation=(
         "Structural clauses of the server side of RFC 7641 decided on the syntax trees of interfaces.py, "
         "resource.py, protocol.py, tokenmanager.py, messagemanager.py and pipe.py: the Observe counter of "
-        "ObservableResource._render_to_pipe (initial value on the first response, path-independent advance "
-        "of at least one per notification, the value stored on the object that is sent), the cancellation "
+        "ObservableResource._render_to_pipe (constant initial value on the first response, an advance of at "
+        "least one between any two consecutive notifications on every pair of paths, the value stored on the "
+        "object that is sent; integer local or itertools.count), the cancellation "
         "callback on every exit after registration and at most once per path, the bookkeeping of "
         "resource.ObservableResource (object added = object removed, count update after both, no foreign "
-        "writer), the termination condition of the notification loop as a boolean normal form, and the "
+        "writer), the termination condition of the notification loop compared per path with the value of the "
+        "is_last argument, and the "
         "termination wiring: a new request on the same (token, remote) stops the old pipe, the stopper is "
         "handed to the message layer as message-error monitor and threaded unchanged down to "
         "_active_exchanges where a Reset fires it, dispatch_error and shutdown call the stored stoppers, "
@@ -25,7 +28,7 @@ R = Rules(
         "strictly increasing, every exit of the render task runs the callback once, and each listed "
         "termination cause cancels the task.  Eventual transmission under every schedule is not decided."
     ),
-    rule_text="dominance / must-pass rules on per-function CFGs, reaching definitions of locals, polynomial and boolean normal forms, field-writer enumeration, class resolution through imports",
+    rule_text="symbolic path enumeration with value numbering (must-alias of locals and attribute chains, boolean locals as formulas over per-path decisions, counters and itertools.count as polynomials), def-use resolution of values through locals / tuples / conditional expressions / loop and comprehension elements / unexpanded helpers, uniform callables (lambda, nested def, bound method, functools.partial), every spelling of a dict read / removal, dominance and must-pass rules on per-function CFGs, field-writer enumeration, class resolution through imports",
 )
 
 OBS = "interfaces.ObservableResource._render_to_pipe"
@@ -72,96 +75,6 @@ def _inside(root, node):
     return any(n is node for n in ast.walk(root))
 
 
-def _path_in_target(t, name):
-    if isinstance(t, ast.Name):
-        return () if t.id == name else None
-    if isinstance(t, (ast.Tuple, ast.List)):
-        for i, e in enumerate(t.elts):
-            if isinstance(e, ast.Starred):
-                continue
-            p = _path_in_target(e, name)
-            if p is not None:
-                return (i,) + p
-    return None
-
-
-def _bound(w, name):
-    """(value expression, index path) a write statement binds to `name`."""
-    if isinstance(w, ast.Assign):
-        for t in w.targets:
-            p = _path_in_target(t, name)
-            if p is not None:
-                return w.value, p
-    if isinstance(w, ast.AnnAssign) and isinstance(w.target, ast.Name) and w.target.id == name:
-        return w.value, ()
-    return None, None
-
-
-def _write_nodes(cfg, fnode, name):
-    out = []
-    for w in writes_to_name(fnode, name):
-        for nid in cfg.locate(w):
-            if cfg.is_reachable(nid):
-                out.append((nid, w))
-    return out
-
-
-def _reaching(cfg, fnode, name, at):
-    """(writes that can be the latest binding of `name` on arrival at node
-    `at`, whether the binding at function entry can still be live there)."""
-    ws = _write_nodes(cfg, fnode, name)
-    ids = {nid for nid, _ in ws}
-    out = []
-    for nid, w in ws:
-        if at in cfg.reach({nid}, avoid=ids - {nid, at}):
-            out.append((nid, w))
-    entry_live = at in cfg.reach({cfg.entry}, avoid=ids - {at}, include_src=True)
-    return out, entry_live
-
-
-def _value_at(cfg, fnode, e, at, depth=4):
-    """Follow a local name to (value expression, index path) of its unique
-    reaching binding: the name denotes value[path...]; literal tuples on the
-    right-hand side of a parallel assignment are indexed away."""
-    while depth and isinstance(e, ast.Name):
-        ws, entry_live = _reaching(cfg, fnode, e.id, at)
-        if len(ws) != 1 or entry_live:
-            break
-        v, p = _bound(ws[0][1], e.id)
-        if v is None:
-            break
-        while p and isinstance(v, (ast.Tuple, ast.List)) and len(v.elts) > p[0] and not any(isinstance(x, ast.Starred) for x in v.elts):
-            v, p = v.elts[p[0]], p[1:]
-        at = ws[0][0]
-        depth -= 1
-        if p:
-            v2, p2 = _value_at(cfg, fnode, v, at, depth)
-            return v2, p2 + p
-        e = v
-    return e, ()
-
-def _assigned_to(n, pred):
-    """values a statement assigns to the targets satisfying pred (parallel
-    assignment aware); None for a value the rule cannot pair up"""
-    out = []
-    if isinstance(n, ast.Assign):
-        for t in n.targets:
-            if pred(t):
-                out.append(n.value)
-            elif isinstance(t, (ast.Tuple, ast.List)):
-                for i, el in enumerate(t.elts):
-                    if pred(el):
-                        if isinstance(n.value, (ast.Tuple, ast.List)) and len(n.value.elts) == len(t.elts):
-                            out.append(n.value.elts[i])
-                        else:
-                            out.append(None)
-    elif isinstance(n, ast.AnnAssign) and pred(n.target):
-        out.append(n.value)
-    elif isinstance(n, ast.AugAssign) and pred(n.target):
-        out.append(None)
-    return out
-
-
 def _strip_not(e, truth=True):
     while isinstance(e, ast.UnaryOp) and isinstance(e.op, ast.Not):
         e = e.operand
@@ -178,31 +91,6 @@ def _truth_nodes(cfg, L, truth):
             if (n.kind == "T") == truth:
                 out.add(n.id)
     return out
-
-
-def _closure_ref(fnode, used, outer):
-    """Does Name `used` inside nested fnode denote the enclosing `outer`
-    (default-argument capture `x=outer`, or a free variable)?"""
-    a = fnode.args
-    allargs = a.posonlyargs + a.args
-    defaults = [None] * (len(allargs) - len(a.defaults)) + list(a.defaults)
-    for arg, d in list(zip(allargs, defaults)) + list(zip(a.kwonlyargs, a.kw_defaults)):
-        if arg.arg == used:
-            return isinstance(d, ast.Name) and d.id == outer
-    if isinstance(fnode, ast.Lambda):
-        return used == outer
-    return used == outer and not writes_to_name(fnode, used)
-
-
-def _nested_callable(fnode, e):
-    """nested def (by name) or lambda an expression denotes inside fnode"""
-    if isinstance(e, ast.Lambda):
-        return e
-    if isinstance(e, ast.Name):
-        defs = [n for n in walk_no_nested(fnode) if isinstance(n, (ast.FunctionDef, ast.AsyncFunctionDef)) and n.name == e.id and n is not fnode]
-        if len(defs) == 1 and not [w for w in writes_to_name(fnode, e.id)]:
-            return defs[0]
-    return None
 
 
 def _cls_of(ctx, fi, e):
@@ -237,6 +125,8 @@ def _obs_parts(ctx):
     P.pipe = p[0]
     ctx.need(not writes_to_name(fi.node, P.pipe), "the pipe parameter is rebound")
     cfg = P.cfg = cfg_of(fi)
+    P.flow = K.Flow(ctx.prog, fi, cfg)
+    P.sym = None
     cands = []
     for n in walk_no_nested(fi.node):
         if isinstance(n, ast.Assign) and len(n.targets) == 1 and isinstance(n.targets[0], ast.Name) and isinstance(n.value, ast.Call):
@@ -245,7 +135,7 @@ def _obs_parts(ctx):
     ctx.need(len(cands) == 1, "expected exactly one ServerObservation() local, found %d" % len(cands))
     P.so = cands[0].targets[0].id
     ctx.need(len(writes_to_name(fi.node, P.so)) == 1, "the ServerObservation local is rebound")
-    regs = [c for c, b in find("self.add_observation($*a)", fi.node) if any(isinstance(x, ast.Name) and x.id == P.so for x in b["a"])]
+    regs = [c for c, b in find("self.add_observation($*a, $**k)", fi.node) if any(isinstance(x, ast.Name) and x.id == P.so for x in list(c.args) + [k.value for k in c.keywords])]
     ctx.need(len(regs) == 1, "expected one add_observation(..., %s) call, found %d" % (P.so, len(regs)))
     P.reg = regs[0]
     P.O = _n1(ctx, cfg, P.reg, "add_observation call")
@@ -255,7 +145,9 @@ def _obs_parts(ctx):
         for nid in _rn(cfg, c):
             if cfg.dominates(P.O, nid):
                 P.adds.append(_Add(cfg, c, nid))
-    ctx.floor("add_response sites after registration", len(P.adds), 3)
+    # at least an initial response and a notification (the confirmed tree has three sites; a refactoring may merge the
+    # two initial ones into one call with a computed is_last)
+    ctx.floor("add_response sites after registration", len(P.adds), 2)
     P.loops = []
     for A in P.adds:
         if A.loop is not None and not any(A.loop is l for l in P.loops):
@@ -266,11 +158,6 @@ def _obs_parts(ctx):
     return P
 
 
-def _in_iter(P, src):
-    """nodes reachable from src inside the same loop iteration"""
-    return P.cfg.reach({src}, avoid={P.head})
-
-
 def _witness(cfg, starts, through, to, skip=()):
     """a statement from which `to` is entered without passing `through`"""
     r = cfg.reach(set(starts), avoid=set(through), skip_labels=skip, include_src=True)
@@ -278,6 +165,125 @@ def _witness(cfg, starts, through, to, skip=()):
         if any(d == to and lab not in skip for d, lab in cfg.succ[n]) and cfg.nodes[n].ast is not None:
             return cfg.nodes[n].ast
     return None
+
+
+# ---------------------------------------------------------------------------
+# symbolic paths of _render_to_pipe (shared by C08.a, C08.d, C08.f)
+
+
+def _parse(src):
+    return ast.parse(src, mode="eval").body
+
+
+class _Iter:
+    """one path through one iteration of the notification loop (q), and, when it comes back to the loop head,
+    the continuations from there up to the first statement of the body or the function's exit (after)"""
+
+    def __init__(self, q):
+        self.q = q
+        self.after = []
+
+    def outcomes(self):
+        if self.q.end == "exit":
+            return {"return"}
+        if self.q.end == "stop":
+            return {"reenter" if a.end == "stop" else "leave" if a.end == "exit" else a.end for a in self.after}
+        return {self.q.end}
+
+    def later_events(self):
+        """events after the iteration when the loop is left through its test"""
+        return [e for a in self.after if a.end != "stop" for e in a.events]
+
+
+def _stored_names(cfg, nodes):
+    out = set()
+    for nid in nodes:
+        a = cfg.nodes[nid].ast
+        if a is None or cfg.nodes[nid].kind in ("T", "F"):
+            continue
+        roots = [a.target] if cfg.nodes[nid].kind == "for" else [a]
+        for r in roots:
+            for n in walk_no_nested(r):
+                if isinstance(n, ast.Name) and isinstance(n.ctx, (ast.Store, ast.Del)):
+                    out.add(n.id)
+    return out
+
+
+def _obs_sym(ctx, P):
+    """Path model of the function: `pre` = paths from the entry to the first arrival at the loop head (or to an
+    earlier exit); `iters` = paths through one *generic* iteration: the locals written in the loop and the heap are
+    unknown at the head, counters are symbolic; an iteration path that leaves through the loop's own test without
+    executing a body statement is not an iteration (that case is decided where the head is reached: `first_after`
+    for the first arrival, `_Iter.after` for every later one)."""
+    if getattr(P, "sym", None) is not None:
+        return
+    cfg = P.cfg
+    S = P.sym = K.Sym(ctx.prog, P.fi, cfg, P.flow)
+    head = P.head
+    cyc = {n for n in cfg.reach({head}, skip_labels=("exc",)) if head in cfg.reach({n}, skip_labels=("exc",))} | {head}
+    ltests = {n.id for n in cfg.nodes if n.stmt is P.loop and n.kind in ("test", "T", "F")}
+    inner = cyc - ltests - {head}
+    ctx.need(bool(inner), "the notification loop has no body in the CFG")
+    P.inner = inner
+    P.pre = S.run(cfg.entry, stop_at={head})
+    P.arrivals = [p for p in P.pre if p.end == "stop"]
+    ctx.need(bool(P.arrivals), "the notification loop is not reached on any path")
+    P.so_tok = P.arrivals[0].st.val.get(P.so)
+    ctx.need(P.so_tok is not None and all(p.st.val.get(P.so) == P.so_tok for p in P.arrivals), "the ServerObservation local has no unique binding at the loop")
+    written = _stored_names(cfg, inner)
+    P.iters = []
+    P.first_after = []
+    for p in P.arrivals:
+        P.first_after.extend(S.run(head, p.st, stop_at=inner))
+        st = p.st.fork()
+        st.epoch += 1000
+        st.heap = {}
+        for nm in written:
+            st.val[nm] = ("head", nm)
+        for k_, v in list(st.cells.items()):
+            st.cells[k_] = Poly.atom(k_) if isinstance(v, Poly) else ("iter", Poly.atom(k_), v[2])
+        for q in S.run(head, st, stop_at={head}):
+            if not (set(q.nodes) & inner):
+                continue
+            it = _Iter(q)
+            if q.end == "stop":
+                it.after = S.run(head, q.st, stop_at=inner)
+            P.iters.append(it)
+    ctx.need(bool(P.iters), "no path through the notification loop")
+
+
+class _Send:
+    def __init__(self, P, ev, path):
+        self.ev = ev
+        self.call = ev.call
+        self.nid = ev.nid
+        self.resp = _kw(ev.call, "response", 0)
+        self.last = _kw(ev.call, "is_last", 1)
+        self.obj = ev.tok_of(self.resp) if self.resp is not None else None
+        self.flag = ("const", False) if self.last is None else ev.formula_of(self.last)
+        self.value = K.evalf(self.flag, path.st.dec)  # True: final, False: keeps the observation open, None: not decided on the path
+
+
+def _sends(P, path, events=None):
+    out = []
+    for ev in (path.events if events is None else events):
+        if ev.kind == "call" and ev.meth == "add_response" and ev.recv == ("n", P.pipe):
+            out.append(_Send(P, ev, path))
+    return out
+
+
+def _observe_store_events(path, obj=None):
+    """Observe option stores `<obj>.opt.observe = v` on a path"""
+    out = []
+    for ev in path.events:
+        if ev.kind == "store" and ev.attr == "observe" and ev.base[0] == "a" and ev.base[2] == "opt":
+            if obj is None or ev.base[1] == obj:
+                out.append(ev)
+    return out
+
+
+def _before(path, ev_a, ev_b):
+    return path.events.index(ev_a) < path.events.index(ev_b)
 
 
 # ---------------------------------------------------------------------------
@@ -295,134 +301,95 @@ def _observe_stores(P):
     return out
 
 
-def _effect(w, name):
-    """polynomial of the new value of `name` over its old value, or None"""
-    N = Normalizer()
-    try:
-        if isinstance(w, ast.AugAssign) and isinstance(w.target, ast.Name) and w.target.id == name:
-            return N.poly(ast.BinOp(left=ast.Name(id=name, ctx=ast.Load()), op=w.op, right=w.value))
-        v, p = _bound(w, name)
-        if v is not None and p == ():
-            return N.poly(v)
-    except norm.NormError:
-        return None
-    return None
+def _cval(p):
+    v = p.const_value() if p is not None else None
+    return v
 
 
-@R.clause("C08.a", "Observe counter: first value = initial counter value, every later notification stores a value at least one above the previous one, path-independent advance, no other store to the counter")
+@R.clause("C08.a", "Observe counter: the initial response carries a constant, the first notification a larger value, every later notification a value at least one above the previous one on every pair of paths, stored on the object that is sent")
 def a(ctx):
+    """Decided on the symbolic paths (kit: Sym).  The counter may be an integer local (`n = 0`, `n += 1`, any
+    polynomial update) or an `itertools.count(start[, step])` iterator read with `next()`; both are cells whose
+    value is a polynomial over the cell's value at the loop head.  For a path i through one iteration that sends a
+    notification which may keep the observation open: p_i = stored Observe value - counter at the head, e_i = counter
+    at the end of the iteration - counter at the head.  Consecutive notifications are strictly increasing iff
+    e_i + p_j - p_i >= 1 for all i, j (and iterations that send nothing never decrease the counter); the first
+    notification exceeds the initial response iff c_0 + p_j >= v_0 + 1.  No statement position, local name or
+    update spelling enters."""
     P = _obs_parts(ctx)
+    _obs_sym(ctx, P)
     fi, cfg = P.fi, P.cfg
     nonfinal = [A for A in P.adds if A.kind != "final"]
     first = [A for A in nonfinal if A.loop is None]
     inloop = [A for A in nonfinal if A.loop is not None]
     ctx.floor("initial responses that keep the observation open", len(first), 1)
     ctx.floor("notification sites in the loop", len(inloop), 1)
-    stores = _observe_stores(P)
-    for n, t in stores:
-        ctx.need(isinstance(n, ast.Assign) and isinstance(t.value.value, ast.Name), "Observe option store outside the rule's vocabulary: %s" % stmt_text(n))
-    fstores = [(n, t) for n, t in stores if _enclosing_loop(cfg, n) is None]
-    lstores = [(n, t) for n, t in stores if _enclosing_loop(cfg, n) is P.loop]
-    if not ctx.ob("the notification loop stores an Observe value", len(lstores) >= 1, fi, inloop[0].call):
-        return
-    ctx.ob("exactly one Observe store in the notification loop", len(lstores) == 1, fi, lstores[-1][0], detail="%d stores" % len(lstores))
-    S, St = lstores[0]
-    s = _n1(ctx, cfg, S, "Observe store")
-    # the counter: the only re-assigned local the stored value depends on
-    cnames = [nm for nm in sorted(names_in(S.value)) if writes_to_name(fi.node, nm)]
-    ctx.need(len(cnames) == 1, "cannot identify the Observe counter in %s" % stmt_text(S))
-    c = cnames[0]
-    ws = _write_nodes(cfg, fi.node, c)
-    init = [(nid, w) for nid, w in ws if _enclosing_loop(cfg, w) is None]
-    inl = [(nid, w) for nid, w in ws if _enclosing_loop(cfg, w) is P.loop]
-    other = [(nid, w) for nid, w in ws if (nid, w) not in init and (nid, w) not in inl]
-    ok_init = len(init) == 1 and cfg.dominates(init[0][0], P.head)
-    ctx.ob("the counter is initialised exactly once, before the loop", ok_init and not other, fi, (init[-1][1] if init else S), detail="%d initialisations, %d foreign stores" % (len(init), len(other)))
-    if not ok_init:
-        return
-    ip = _effect(init[0][1], c)
-    iv = ip.const_value() if ip is not None else None
-    ctx.ob("the initial counter value is a constant in [0, 2**23)", iv is not None and iv.denominator == 1 and 0 <= iv < 2 ** 23, fi, init[0][1], detail="initial value %r" % (ip,))
-    if iv is None:
-        return
-    # first response(s)
-    for A in first:
-        ctx.need(isinstance(A.resp, ast.Name), "first response argument is not a local")
-        r = A.resp.id
-        dom = [(n, t) for n, t in fstores if t.value.value.id == r and any(cfg.dominates(x, A.nid) for x in _rn(cfg, n))]
-        if not ctx.ob("the initial response of an accepted observation carries an Observe value", len(dom) >= 1, fi, A.call):
+    for n, t in _observe_stores(P):
+        ctx.need(isinstance(n, ast.Assign), "Observe option store outside the rule's vocabulary: %s" % stmt_text(n))
+    # --- initial response(s): every path that reaches the loop
+    v0s = []
+    c0 = {}
+    for p in P.arrivals:
+        opens = [s for s in _sends(P, p) if s.value is not True]
+        for s in opens:
+            sts = [ev for ev in _observe_store_events(p, s.obj) if _before(p, ev, s.ev)]
+            if not ctx.ob("the initial response of an accepted observation carries an Observe value", bool(sts), fi, s.call):
+                continue
+            ev = sts[-1]
+            v = _cval(ev.poly)
+            ctx.ob("the initial Observe value is a constant in [0, 2**23)", v is not None and v.denominator == 1 and 0 <= v < 2 ** 23, fi, ev.stmt, detail="initial value %r" % (ev.poly,))
+            if v is not None:
+                v0s.append(v)
+        for k_, v in p.st.cells.items():
+            c0.setdefault(k_, []).append(v if isinstance(v, Poly) else v[1])
+    # --- one generic iteration
+    rel = []  # (p_i, e_i, send, path) per notification that may keep the observation open
+    idle = []  # iterations that come back to the head without such a notification
+    counters = set()
+    for it in P.iters:
+        q = it.q
+        opens = [s for s in _sends(P, q) if s.value is not True]
+        if not opens:
+            if "reenter" in it.outcomes():
+                idle.append(it)
             continue
-        n, t = dom[-1]
-        nn = _n1(ctx, cfg, n, "first Observe store")
-        rebinding = [w for x, w in _write_nodes(cfg, fi.node, r) if x in cfg.reach({nn}) and A.nid in cfg.reach({x})]
-        ctx.ob("the object carrying the first Observe value is the one sent", not rebinding, fi, A.call)
-        try:
-            fv = Normalizer(penv={c: ip}).poly(n.value).const_value()
-        except norm.NormError:
-            fv = None
-        P.first_value = fv
-        ctx.ob("the first Observe value equals the counter's initial value", fv is not None and fv == iv, fi, n, detail="first value %r, counter starts at %r" % (fv, iv))
-    # in-loop advance: writes before the store (dominating it) and after it (on every path to the next iteration)
-    pre, post, loose = [], [], []
-    for nid, w in inl:
-        if nid in cfg.reach({nid}, avoid={P.head}):
-            loose.append(w)  # inner loop
-        elif cfg.dominates(nid, s):
-            pre.append((nid, w))
-        elif cfg.dominates(s, nid) and cfg.must_pass(s, {nid}, to=P.head):
-            post.append((nid, w))
-        else:
-            loose.append(w)
-    ctx.ob("the counter advances path-independently (every in-loop store to it lies on all notification paths)", not loose, fi, loose[0] if loose else S)
-    if loose:
+        for s in opens:
+            sts = [ev for ev in _observe_store_events(q, s.obj) if _before(q, ev, s.ev)]
+            if not ctx.ob("every non-final notification is preceded, in its iteration, by the counter advance and the Observe store on the object that is sent", bool(sts), fi, s.call,
+                          detail=None if sts else ("Observe stores on this path: %d (on another object)" % len(_observe_store_events(q)) if _observe_store_events(q) else "no Observe store on a path to a notification that keeps the observation open")):
+                continue
+            ctx.ob("exactly one Observe store per notification", len(sts) == 1, fi, sts[-1].stmt, detail="%d stores" % len(sts))
+            ev = sts[-1]
+            ctx.need(ev.poly is not None, "stored Observe value is not arithmetic over a counter: %s" % stmt_text(ev.stmt))
+            ats = sorted(ev.poly.atoms())
+            ctx.need(len(ats) == 1, "cannot identify the Observe counter in %s" % stmt_text(ev.stmt))
+            c = ats[0]
+            counters.add(c)
+            pi = ev.poly - Poly.atom(c)
+            ctx.need(pi.const_value() is not None, "stored Observe value is not counter + constant: %s" % stmt_text(ev.stmt))
+            end = q.st.cells.get(c)
+            end = end[1] if isinstance(end, tuple) else end
+            ctx.need(end is not None and (end - Poly.atom(c)).const_value() is not None, "counter update outside the rule's vocabulary on a path through %s" % stmt_text(ev.stmt))
+            rel.append((pi.const_value(), (end - Poly.atom(c)).const_value(), s, ev))
+    if not ctx.ob("the notification loop stores an Observe value", bool(rel), fi, inloop[0].call):
         return
-    def total(seq):
-        d = Poly.const(0)
-        for nid, w in seq:
-            e = _effect(w, c)
-            ctx.need(e is not None and (e - Poly.atom(c)).const_value() is not None, "counter update outside the rule's vocabulary: %s" % stmt_text(w))
-            d = d + (e - Poly.atom(c))
-        return d.const_value()
-    dpre, dpost = total(pre), total(post)
-    try:
-        stored = Normalizer(penv={c: Poly.atom(c) + Poly.const(dpre)}).poly(S.value) - Poly.atom(c)
-    except norm.NormError:
-        stored = None
-    ctx.need(stored is not None and stored.const_value() is not None, "stored Observe value is not counter + constant: %s" % stmt_text(S))
-    p = stored.const_value()
-    e = dpre + dpost
-    ctx.ob("each notification's Observe value exceeds the previous notification's (advance per iteration >= 1)", e >= 1, fi, (pre + post)[0][1] if (pre + post) else S, detail="advance per notification: %s" % e)
-    fv0 = getattr(P, "first_value", None)
-    fv0 = iv if fv0 is None else fv0
-    ctx.ob("the first notification's Observe value exceeds the one on the initial response", iv + p >= fv0 + 1, fi, S, detail="first notification carries %s, initial response %s" % (iv + p, fv0))
-    # the store is on every non-final path to the notification, on the object that is sent
-    for A in inloop:
-        ctx.need(isinstance(A.resp, ast.Name), "notification argument is not a local")
-        ctx.ob("the Observe value is stored on the object that is sent", A.resp.id == St.value.value.id, fi, A.call)
-        rebinding = [w for x, w in _write_nodes(cfg, fi.node, A.resp.id) if x in _in_iter(P, s) and A.nid in _in_iter(P, x)]
-        ctx.ob("the notification object is not replaced between the Observe store and the transmission", not rebinding, fi, A.call)
-        if A.kind == "nonfinal":
-            ok = cfg.dominates(s, A.nid)
-        else:
-            final_side = _truth_nodes(cfg, A.last, True)
-            ctx.need(_stable_flag(P, A, final_side), "the is_last flag of %s is re-assigned between its tests and its use" % stmt_text(A.call))
-            ok = A.nid not in cfg.reach({P.head}, avoid={s} | final_side)
-        ctx.ob("every non-final notification is preceded, in its iteration, by the counter advance and the Observe store", ok, fi, A.call)
-
-
-def _stable_flag(P, A, nodes):
-    """the tests in `nodes` and the use at A see the same binding of the flag"""
-    if not isinstance(_strip_not(A.last)[0], ast.Name):
-        return False
-    name = _strip_not(A.last)[0].id
-    ref, live = _reaching(P.cfg, P.fi.node, name, A.nid)
-    if len(ref) != 1 or live:
-        return False
-    for t in nodes:
-        r2, l2 = _reaching(P.cfg, P.fi.node, name, t)
-        if l2 or [x for x, _ in r2] != [ref[0][0]]:
-            return False
-    return True
+    ctx.need(len(counters) == 1, "several Observe counters: %s" % sorted(counters))
+    c = counters.pop()
+    inits = c0.get(c, [])
+    ok_init = len(inits) == len(P.arrivals) and all(_cval(v) is not None for v in inits) and len({_cval(v) for v in inits}) == 1
+    ctx.ob("the counter is initialised before the loop, to the same constant on every path", ok_init, fi, rel[0][3].stmt, detail="values at the loop head: %s" % (inits,))
+    for it in idle:
+        end = it.q.st.cells.get(c)
+        end = end[1] if isinstance(end, tuple) else end
+        d = (end - Poly.atom(c)).const_value() if end is not None else None
+        ctx.ob("an iteration that sends no Observe value does not decrease the counter", d is not None and d >= 0, fi, rel[0][3].stmt, detail="advance %s" % d)
+    worst = min(ei + pj - pi for pi, ei, _, _ in rel for pj, _, _, _ in rel)
+    ctx.ob("each notification's Observe value exceeds the previous notification's (advance per iteration >= 1)", worst >= 1, fi, rel[0][3].stmt, detail="least difference between consecutive notifications: %s" % worst)
+    if ok_init and v0s:
+        iv = _cval(inits[0])
+        lo = min(pj for pj, _, _, _ in rel)
+        ctx.ob("the first notification's Observe value exceeds the one on the initial response", iv + lo >= max(v0s) + 1, fi, rel[0][3].stmt, detail="first notification carries %s, initial response %s" % (iv + lo, max(v0s)))
+        ctx.ob("the initial counter value is a constant in [0, 2**23)", iv.denominator == 1 and 0 <= iv < 2 ** 23, fi, rel[0][3].stmt, detail="initial value %r" % (iv,))
 
 
 # ---------------------------------------------------------------------------
@@ -475,72 +442,91 @@ def b(ctx):
 # C08.c
 
 
-def _fi_of_node(prog, node):
-    for f in prog.funcs.values():
-        if f.node is node:
-            return f
+def _denotes(cb, e, outer_name):
+    """does expression e inside callable cb denote the creating scope's local/parameter `outer_name`?"""
+    if not isinstance(e, ast.Name):
+        return False
+    o = cb.outer(e.id)
+    return isinstance(o, ast.Name) and o.id == outer_name
+
+
+def _receiver(call):
+    """X of a call X._observations.<m>(...)"""
+    f = call.func
+    if isinstance(f, ast.Attribute) and isinstance(f.value, ast.Attribute):
+        return f.value.value
     return None
 
 
 @R.clause("C08.c", "resource.ObservableResource: the object added to _observations is the one the accept() callback removes; both paths report len(_observations) afterwards; no foreign writer; updated_state triggers every member")
 def c(ctx):
+    """The cancellation callback may be a nested def, a lambda (default-argument capture or free variables), a bound
+    method or functools.partial over any of these (kit: resolve_callable): what matters is which objects of
+    add_observation the names inside the callable denote."""
     prog = ctx.prog
     fi = prog.func("resource.ObservableResource.add_observation")
     p = params(fi)
     ctx.need(len(p) == 2, "add_observation signature changed")
     so = p[1]
-    ctx.need(not writes_to_name(fi.node, so), "the serverobservation parameter is rebound")
+    selfn = fi.node.args.args[0].arg
+    ctx.need(not writes_to_name(fi.node, so) and not writes_to_name(fi.node, selfn), "the serverobservation parameter is rebound")
     cfg = cfg_of(fi)
-    adds = [n for k, n in stores_to(fi.node, "self._observations", nested=False) if k == "add"]
+    F = "%s._observations" % selfn
+    adds = [n for k, n in stores_to(fi.node, F, nested=False) if k == "add"]
     ctx.floor("insertions into _observations", len(adds), 1)
     ctx.ob("exactly one insertion into _observations per registration", len(adds) == 1, fi, adds[-1], detail="%d insertions" % len(adds))
     for ad in adds:
         ctx.ob("the inserted object is the ServerObservation handed in", len(ad.args) == 1 and isinstance(ad.args[0], ast.Name) and ad.args[0].id == so, fi, ad)
-    accepts = [(c, b) for c, b in find("%s.accept($cb)" % so, fi.node)]
+    accepts = [(c_, b) for c_, b in find("%s.accept($cb)" % so, fi.node)]
     ctx.floor("accept() calls", len(accepts), 1)
     an = set()
     for c_, _ in accepts:
         an |= set(_rn(cfg, c_))
     ctx.ob("every registration that was inserted is accepted with a cancellation callback", cfg.must_pass(cfg.entry, an), fi, accepts[0][0])
-    COUNT = "self.update_observation_count(len(self._observations))"
-    upd = [c_ for c_, _ in find(COUNT, fi.node)]
+    COUNT = "%s.update_observation_count(len(%s._observations))"
+    upd = [c_ for c_, _ in find(COUNT % (selfn, selfn), fi.node)]
     un = set()
     for c_ in upd:
         un |= set(_rn(cfg, c_))
     for ad in adds:
         a_id = _n1(ctx, cfg, ad, "insertion")
         ctx.ob("after the insertion every normal path reports len(_observations) to update_observation_count", bool(un) and all(cfg.must_pass(d, un) for d, lab in cfg.succ[a_id] if lab != "exc"), fi, ad)
+    allowed = {id(n) for n in adds}
     for call, b in accepts:
-        cb = _nested_callable(fi.node, b["cb"])
-        ctx.need(cb is not None, "accept() callback is not a nested def or lambda: %s" % stmt_text(call))
-        rem = [(k, n) for k, n in stores_to(cb, "self._observations", nested=False) if k in ("remove", "discard")]
-        if not ctx.ob("the cancellation callback removes an entry from _observations", len(rem) == 1, fi, cb, construct="callback of " + stmt_text(call), detail="%d removals" % len(rem)):
+        cb = K.resolve_callable(prog, fi, b["cb"])
+        ctx.need(cb is not None, "accept() callback is not a callable the rule can resolve (nested def, lambda, bound method, functools.partial): %s" % stmt_text(call))
+        ctx.need(not cb.free_params(), "the cancellation callback still expects arguments: %s" % stmt_text(call))
+        rem = [(k, n) for k, n in stores_to_any(cb.fnode, "_observations") if k in ("remove", "discard")]
+        other = [(k, n) for k, n in stores_to_any(cb.fnode, "_observations") if k not in ("remove", "discard")]
+        if not ctx.ob("the cancellation callback removes an entry from _observations", len(rem) == 1 and not other, fi, call, construct="callback of " + stmt_text(call), detail="%d removals, %d other stores" % (len(rem), len(other))):
             continue
         rn = rem[0][1]
+        allowed.add(id(rn))
+        recv = _receiver(rn)
         arg = rn.args[0] if len(rn.args) == 1 else None
-        ctx.ob("the callback removes the object that was inserted", isinstance(arg, ast.Name) and _closure_ref(cb, arg.id, so), fi, rn)
-        ctx.ob("the callback acts on the same resource instance", _closure_ref(cb, "self", "self"), fi, rn)
-        ccfg = CFG(cb)
+        ctx.ob("the callback removes the object that was inserted", _denotes(cb, arg, so), fi, rn)
+        ctx.ob("the callback acts on the same resource instance", _denotes(cb, recv, selfn), fi, rn)
+        ccfg = cfg_of(cb.fi) if cb.fi is not None else CFG(cb.fnode)
         r_id = [i for i in ccfg.locate(rn) if ccfg.is_reachable(i)]
         ctx.need(bool(r_id), "removal unreachable in callback")
         cu = set()
-        for c_, _ in find(COUNT, cb):
-            cu |= {i for i in ccfg.locate(c_) if ccfg.is_reachable(i)}
+        if isinstance(recv, ast.Name):
+            for c_, _ in find(COUNT % (recv.id, recv.id), cb.fnode):
+                cu |= {i for i in ccfg.locate(c_) if ccfg.is_reachable(i)}
         ctx.ob("after the removal every normal path reports len(_observations) to update_observation_count",
                bool(cu) and all(ccfg.must_pass(d, cu) for d, lab in ccfg.succ[r_id[0]] if lab != "exc"), fi, rn)
         ctx.ob("the removal is on every path of the callback", ccfg.must_pass(ccfg.entry, set(r_id)), fi, rn)
+        if cb.fi is not None:
+            # a method used as the callback: nobody else may call it (it would remove a live registration)
+            refs = [n for n in ast.walk(fi.module.tree) if isinstance(n, ast.Attribute) and n.attr == cb.fnode.name and isinstance(n.ctx, ast.Load)]
+            ctx.ob("the method that removes a registration is used only as the cancellation callback", len(refs) == 1, fi, call, detail="%d references" % len(refs))
     # writers of the field inside the class
     ci = prog.cls("resource.ObservableResource")
-    allowed = {id(n) for n in adds}
-    for call, b in accepts:
-        cb = _nested_callable(fi.node, b["cb"])
-        if cb is not None:
-            allowed |= {id(n) for k, n in stores_to(cb, "self._observations", nested=False) if k in ("remove", "discard")}
     nw = 0
     for f2 in prog.funcs.values():
         if not f2.qn.startswith(ci.qn + "."):
             continue
-        for k, n in stores_to(f2.node, "self._observations", nested=False):
+        for k, n in stores_to_any(f2.node, "_observations"):
             nw += 1
             if f2.name == "__init__" and k == "assign":
                 ctx.ob("_observations starts as an empty set", isinstance(n, ast.Assign) and match("set()", n.value) is not None, f2, n)
@@ -595,75 +581,154 @@ def _field_iter(e, field):
 
 @R.clause("C08.d", "the observation is kept open only if accepted, not deregistered and successful; in the loop is_last <=> _late_deregister or not code.is_successful(); nothing is sent after a final response and every return is preceded by one")
 def d(ctx):
+    """Decided on the symbolic paths: the value of the is_last argument at each add_response (a constant, a local
+    holding a boolean expression, the expression itself, or a flag set on branches) is compared, per path and for
+    every completion of the conditions the path left open, with the reference condition evaluated in the state of
+    the call (same response object, no suspension point between the condition and the call)."""
     P = _obs_parts(ctx)
+    _obs_sym(ctx, P)
     fi, cfg = P.fi, P.cfg
     first = [A for A in P.adds if A.kind != "final" and A.loop is None]
     inloop = [A for A in P.adds if A.loop is not None]
     ctx.floor("initial responses that keep the observation open", len(first), 1)
     ctx.floor("notification sites in the loop", len(inloop), 1)
-    for A in first:
-        ctx.need(A.kind == "nonfinal" and isinstance(A.resp, ast.Name) and len(writes_to_name(fi.node, A.resp.id)) == 1, "initial response outside the rule's vocabulary")
-        r = A.resp.id
-        ctx.ob("the observation is kept open only if the resource accepted it", guarded_by(cfg, A.nid, "%s._accepted" % P.so, True), fi, A.call)
-        ctx.ob("the observation is kept open only if it was not deregistered during the first rendering", guarded_by(cfg, A.nid, "%s._early_deregister" % P.so, False), fi, A.call)
-        ctx.ob("the observation is kept open only if the first response is successful", guarded_by(cfg, A.nid, "%s.code.is_successful()" % r, True), fi, A.call)
-        ctx.ob("notifications start only after the initial response", cfg.dominates(A.nid, P.head), fi, A.call)
-    addn = {A.nid for A in P.adds}
-    if len(inloop) == 1 and inloop[0].kind != "var":
-        ctx.ob("the in-loop notification's is_last flag is the computed termination condition", False, fi, inloop[0].call, detail="constant is_last inside the loop")
-        return
-    ctx.need(all(A.kind == "var" for A in inloop), "several in-loop add_response sites with constant is_last: shape outside the rule's vocabulary")
-    for A in inloop:
-        ctx.need(isinstance(A.resp, ast.Name), "notification argument is not a local")
-        r = A.resp.id
-        fin = _truth_nodes(cfg, A.last, True)
-        cont = _truth_nodes(cfg, A.last, False)
-        ctx.need(_stable_flag(P, A, fin | cont), "the is_last flag of %s is not a single-binding local" % stmt_text(A.call))
-        N = Normalizer(env=norm.local_env(fi.node))
-        try:
-            got = N.dnf(A.last)
-            want = Normalizer().dnf(ast.parse("%s._late_deregister or not %s.code.is_successful()" % (P.so, r), mode="eval").body)
-        except norm.NormError as e:
-            ctx.need(False, "termination condition cannot be normalised: %s" % e)
-        ctx.ob("is_last <=> _late_deregister or not response.code.is_successful()", got == want, fi, A.call,
-               detail="normal form %s" % sorted(sorted(map(repr, cj)) for cj in got), construct="is_last of " + stmt_text(A.call))
-        # the response tested is the one sent: no rebinding of r between the flag's write and the send
-        fw, _ = _reaching(cfg, fi.node, _strip_not(A.last)[0].id, A.nid)
-        reb = [w for x, w in _write_nodes(cfg, fi.node, r) if x in _in_iter(P, fw[0][0]) and A.nid in _in_iter(P, x)]
-        ctx.ob("the response whose code decides is_last is the response that is sent", not reb, fi, A.call)
-        after = cfg.reach({A.nid}, avoid=cont, skip_labels=("exc",))
-        ctx.ob("after a final notification the loop is not re-entered", P.head not in after, fi, A.call)
-        ctx.ob("after a final notification no further response is added", not (after & addn), fi, A.call)
-        ctx.ob("a non-final notification keeps the loop running (no return while is_last is false)", cfg.exit not in cfg.reach({A.nid}, avoid=fin, skip_labels=("exc",)), fi, A.call)
-    for A in P.adds:
-        if A.kind == "final":
-            ctx.ob("after a final response no further response is added", not (cfg.reach({A.nid}, skip_labels=("exc",)) & addn), fi, A.call)
-    closing = {A.nid for A in P.adds if A.kind in ("final", "var")}
-    w = _witness(cfg, P.after_reg, closing, cfg.exit, skip=("exc",))
-    ctx.ob("every return after registration is preceded by a response that can be final", w is None, fi, w if w is not None else P.reg)
+    # --- before the loop
+    for p in P.pre:
+        sends = _sends(P, p)
+        for i, s in enumerate(sends):
+            if s.value is not True:
+                ctx.need(s.resp is not None, "add_response without a response argument")
+                r = ast.unparse(s.resp)
+                for desc, src, want in (
+                    ("the observation is kept open only if the resource accepted it", "%s._accepted" % P.so, True),
+                    ("the observation is kept open only if it was not deregistered during the first rendering", "%s._early_deregister" % P.so, False),
+                    ("the observation is kept open only if the first response is successful", "(%s).code.is_successful()" % r, True),
+                ):
+                    got = K.evalf(s.ev.formula_of(_parse(src)), p.st.dec)
+                    ctx.ob(desc, got is want, fi, s.call, detail=None if got is want else ("not decided on a path to this response" if got is None else "the opposite holds on a path to this response"))
+            if s.value is not False:
+                ctx.ob("after a final response no further response is added", not sends[i + 1:], fi, s.call)
+        if p.end == "stop":
+            ctx.ob("notifications start only after the initial response", any(s.value is not True for s in sends), fi, (first[0].call if first else P.reg))
+        if p.end == "exit" and P.O in p.nodes:
+            ctx.ob("every return after registration is preceded by a response that can be final", any(s.value is not False for s in sends), fi, _last_stmt(cfg, p) or P.reg)
+    for a_ in P.first_after:
+        if a_.end == "exit":
+            ctx.ob("every return after registration is preceded by a response that can be final", False, fi, P.loop, construct="notification loop", detail="the loop can be skipped after the initial response")
+    # --- in the loop
+    for it in P.iters:
+        q = it.q
+        sends = _sends(P, q)
+        outs = it.outcomes()
+        ctx.need(not (outs - {"return", "reenter", "leave", "rexit"}), "iteration of the notification loop ends in an inner loop the rule cannot follow")
+        for i, s in enumerate(sends):
+            ctx.need(s.resp is not None, "add_response without a response argument")
+            ref = s.ev.formula_of(_parse("%s._late_deregister or not (%s).code.is_successful()" % (P.so, ast.unparse(s.resp))))
+            okf, cex = K.equivalent_under(s.flag, ref, q.st.dec)
+            ctx.ob("is_last <=> _late_deregister or not response.code.is_successful()", okf, fi, s.call, construct="is_last of " + stmt_text(s.call),
+                   detail=None if okf else "the flag and the condition differ (or are not decided) for: %s" % (cex or "a path through the call"))
+            later = sends[i + 1:] + _sends(P, q, it.later_events())
+            if s.value is not False:
+                ctx.ob("after a final notification the loop is not re-entered", "reenter" not in outs, fi, s.call)
+                ctx.ob("after a final notification no further response is added", not later, fi, s.call)
+            if s.value is not True:
+                ctx.ob("a non-final notification keeps the loop running (no return while is_last is false)", not (outs & {"return", "leave"}), fi, s.call)
+        if outs & {"return", "leave"}:
+            allsends = sends + _sends(P, q, it.later_events())
+            ctx.ob("every return after registration is preceded by a response that can be final", any(s.value is not False for s in allsends), fi, _last_stmt(cfg, q) or P.reg)
 
 
 # ---------------------------------------------------------------------------
 # C08.e  termination wiring
+#
+# Every sub-rule below states a *value-flow* fact ("the callable passed here IS the value read/stored there") through
+# kit.Flow.origins, which follows locals, tuple (un)packing, conditional expressions, loop/comprehension elements and
+# small helpers; dictionary accesses are recognised in every spelling by Flow.entry_read.
+
+TMF = "self.incoming_requests"
 
 
-def _is_req_key(cfg, fnode, e, at, req):
-    v, p = _value_at(cfg, fnode, e, at)
-    b = match("($a, $b)", v) if not p else None
+def _single(o):
+    return o[0] if len(o) == 1 else (None, None)
+
+
+def _same_value(o1, o2):
+    a, b = _single(o1), _single(o2)
+    return a[0] is not None and a[0] is b[0] and a[1] == b[1]
+
+
+def _is_param_value(flow, e, at, param):
+    v, p = _single(flow.origins(e, at))
+    return isinstance(v, ast.Name) and v.id == param and p == () and param in flow.params and not writes_to_name(flow.fnode, param)
+
+
+def _not_none(o):
+    return [(v, p) for v, p in o if not (isinstance(v, ast.Constant) and v.value is None)]
+
+
+def _is_req_key(flow, e, at, req):
+    v, p = _single(flow.origins(e, at))
+    b = match("($a, $b)", v) if v is not None and p == () and isinstance(v, ast.AST) else None
     return b is not None and chain(b["a"]) == req + ".token" and chain(b["b"]) == req + ".remote"
 
 
-def _entry_reads(fi, field, cfg, key_ok):
-    """assignments that read an entry of self.<field> under the request key:
-    [(stmt, value call/subscript)]"""
-    out = []
-    for n in walk_no_nested(fi.node):
-        if isinstance(n, ast.Assign):
-            v = n.value
-            b = match("%s.pop($k, $*d)" % field, v) or match("%s[$k]" % field, v) or match("%s.get($k, $*d)" % field, v)
-            if b is not None and key_ok(b["k"], n):
-                out.append(n)
-    return out
+def _noarg_calls(root):
+    return [c for c in calls_in(root) if not c.args and not c.keywords]
+
+
+def _default_of(read):
+    """default expression of a keyed read (`d.pop(k, D)`, `d.get(k[, D])`); 'raise' when the read raises KeyError"""
+    if isinstance(read, ast.Subscript):
+        return "raise"
+    if read.func.attr == "get":
+        return read.args[1] if len(read.args) > 1 else ast.Constant(value=None)
+    if read.func.attr in ("pop", "setdefault"):
+        return read.args[1] if len(read.args) > 1 else "raise"
+    return "raise"
+
+
+def _none_at(e, path):
+    while path and isinstance(e, (ast.Tuple, ast.List)) and len(e.elts) > path[0]:
+        e, path = e.elts[path[0]], path[1:]
+    return isinstance(e, ast.Constant) and e.value is None
+
+
+def _presence_nodes(flow, cfg, F, reads, key_ok):
+    """(tests, absent): the branch pseudo-nodes / handler nodes on which it is known whether the entry the keyed
+    `reads` of dict F address exists -- `k in F`, `x is None` / `x is not None` / `x` for a read with a None
+    default (`F.get(k)`, `F.pop(k, None)`), the KeyError handler around `F[k]` / `F.pop(k)`; `absent` are those on
+    which there is no entry."""
+    def from_read(e, at):
+        o = flow.origins(e, at)
+        return bool(o) and all(any(v is r for r in reads) for v, pth in o), o
+
+    member, absent = set(), set()
+    for n in cfg.nodes:
+        if n.kind not in ("T", "F") or not cfg.is_reachable(n.id) or n.ast is None:
+            continue
+        e_ = n.ast
+        if isinstance(e_, ast.Compare) and len(e_.ops) == 1 and isinstance(e_.ops[0], (ast.In, ast.NotIn)) and flow.denotes_field(e_.comparators[0], F, n.id) and key_ok(e_.left, n.id):
+            member.add(n.id)
+            if (n.kind == "T") != isinstance(e_.ops[0], ast.In):
+                absent.add(n.id)
+            continue
+        subj, none_when = None, None
+        if isinstance(e_, ast.Compare) and len(e_.ops) == 1 and isinstance(e_.comparators[0], ast.Constant) and e_.comparators[0].value is None and isinstance(e_.ops[0], (ast.Is, ast.IsNot, ast.Eq, ast.NotEq)):
+            subj, none_when = e_.left, isinstance(e_.ops[0], (ast.Is, ast.Eq))
+        elif isinstance(e_, ast.Name):
+            subj, none_when = e_, False
+        if subj is not None:
+            ok_, o = from_read(subj, n.id)
+            if ok_ and all(_default_of(v) != "raise" and _none_at(_default_of(v), pth) for v, pth in o):
+                member.add(n.id)
+                if (n.kind == "T") == none_when:
+                    absent.add(n.id)
+    for t in walk_no_nested(flow.fnode):
+        if isinstance(t, ast.Try) and any(_inside(ast.Module(body=t.body, type_ignores=[]), r) and _default_of(r) == "raise" for r in reads):
+            for h in t.handlers:
+                if h.type is None or (chain(h.type) or "").split(".")[-1] in ("KeyError", "LookupError", "Exception"):
+                    absent |= set(_rn(cfg, h))
+    return member, absent
 
 
 def _e_process_request(ctx):
@@ -673,119 +738,143 @@ def _e_process_request(ctx):
     ctx.need(len(p) == 1 and not writes_to_name(fi.node, p[0]), "process_request signature changed or request rebound")
     req = p[0]
     cfg = cfg_of(fi)
-    F = "self.incoming_requests"
+    flow = K.Flow(prog, fi, cfg)
+    F = TMF
     sts = [n for k, n in stores_to(fi.node, F, nested=False) if k == "setitem"]
     ctx.floor("insertions into incoming_requests", len(sts), 1)
-    ctx.need(len(sts) == 1 and isinstance(sts[0], ast.Assign) and isinstance(sts[0].targets[0], ast.Subscript), "insertion into incoming_requests outside the rule's vocabulary")
+    ctx.need(len(sts) == 1 and isinstance(sts[0], ast.Assign) and len(sts[0].targets) == 1 and isinstance(sts[0].targets[0], ast.Subscript), "insertion into incoming_requests outside the rule's vocabulary")
     ST = sts[0]
     st = _n1(ctx, cfg, ST, "insertion")
-    ctx.ob("the request is registered under (token, remote)", _is_req_key(cfg, fi.node, ST.targets[0].slice, st, req), fi, ST)
-    val = ST.value
-    ctx.need(isinstance(val, ast.Tuple) and len(val.elts) == 2, "stored entry is not a pair")
-    pv, pp = _value_at(cfg, fi.node, val.elts[0], st)
-    ok_pipe = not pp and isinstance(pv, ast.Call) and _cls_of(ctx, fi, pv.func) == "aiocoap.pipe.Pipe" and pv.args and isinstance(pv.args[0], ast.Name) and pv.args[0].id == req
+    ctx.ob("the request is registered under (token, remote)", _is_req_key(flow, ST.targets[0].slice, st, req), fi, ST)
+    val, vp = _single(flow.origins(ST.value, st))
+    ctx.need(isinstance(val, ast.Tuple) and vp == () and len(val.elts) == 2, "stored entry is not a pair")
+    po = flow.origins(val.elts[0], st)
+    pv, pp = _single(po)
+    ok_pipe = pp == () and isinstance(pv, ast.Call) and _cls_of(ctx, fi, pv.func) == "aiocoap.pipe.Pipe"
+    if ok_pipe:
+        a0 = _kw(pv, "request", 0)
+        ok_pipe = isinstance(a0, ast.Name) and a0.id == req
     ctx.ob("the stored pipe is a fresh Pipe around this request", ok_pipe, fi, ST)
-    sv, sp = _value_at(cfg, fi.node, val.elts[1], st)
-    b = match("$p.on_event($h)", sv) if not sp else None
-    handler = _nested_callable(fi.node, b["h"]) if b is not None else None
-    same_pipe = False
-    if b is not None and isinstance(b["p"], ast.Name) and isinstance(val.elts[0], ast.Name) and b["p"].id == val.elts[0].id:
-        r1, _ = _reaching(cfg, fi.node, b["p"].id, _n1(ctx, cfg, sv, "on_event registration"))
-        r2, _ = _reaching(cfg, fi.node, b["p"].id, st)
-        same_pipe = [x for x, _ in r1] == [x for x, _ in r2] and len(r1) == 1
-    ctx.ob("the stored stopper unregisters the event handler of the stored pipe", handler is not None and same_pipe, fi, ST, detail="stopper = %s" % stmt_text(sv))
-    # override of an existing request on the same key
-    present = set()
-    tests = set()
-    for n in cfg.nodes:
-        if n.kind in ("T", "F") and cfg.is_reachable(n.id) and isinstance(n.ast, ast.Compare) and len(n.ast.ops) == 1 \
-                and isinstance(n.ast.ops[0], (ast.In, ast.NotIn)) and chain(n.ast.comparators[0]) == F and _is_req_key(cfg, fi.node, n.ast.left, n.id, req):
-            tests.add(n.id)
-            if (n.kind == "T") == isinstance(n.ast.ops[0], ast.In):
-                present.add(n.id)
-    reads = _entry_reads(fi, F, cfg, lambda k, n: _is_req_key(cfg, fi.node, k, _n1(ctx, cfg, n, "entry read"), req))
+    so_ = flow.origins(val.elts[1], st)
+    sv, sp = _single(so_)
+    b = match("$p.on_event($h, $**k)", sv) if sp == () and isinstance(sv, ast.AST) else None
+    handler = K.resolve_callable(prog, fi, b["h"]) if b is not None else None
+    same_pipe = b is not None and _same_value(flow.origins(b["p"], _n1(ctx, cfg, sv, "on_event registration")), po)
+    ctx.ob("the stored stopper unregisters the event handler of the stored pipe", handler is not None and same_pipe, fi, ST, detail="stopper = %s" % (stmt_text(sv) if isinstance(sv, ast.AST) else sv))
+    # --- override of an existing request on the same key
+    reads = []
+    for n in walk_no_nested(fi.node):
+        if isinstance(n, (ast.Subscript, ast.Call)) and not isinstance(getattr(n, "ctx", None), (ast.Store, ast.Del)):
+            ids = _rn(cfg, n)
+            if ids:
+                er = flow.entry_read(n, F, ids[0])
+                if er is not None and er[0] == "value" and er[1] is not None and _is_req_key(flow, er[1], ids[0], req):
+                    reads.append(n)
+    readnodes = {i for n in reads for i in _rn(cfg, n)}
+
+    def from_read(e, at, want_path=None):
+        """every value e can denote is (a component of) the entry read under the request key"""
+        o = flow.origins(e, at)
+        return bool(o) and all(any(v is r for r in reads) and (want_path is None or pth == want_path) for v, pth in o), o
+
     stops = set()
-    for call in calls_in(fi.node):
+    for call in _noarg_calls(fi.node):
         cn = _rn(cfg, call)
-        if not cn or call.args or call.keywords:
-            continue
-        f = call.func
-        if isinstance(f, ast.Name):
-            ws, live = _reaching(cfg, fi.node, f.id, cn[0])
-            if len(ws) == 1 and not live and ws[0][1] in reads and _bound(ws[0][1], f.id)[1] == (1,):
-                stops.add(cn[0])
-        elif isinstance(f, ast.Subscript) and isinstance(f.slice, ast.Constant) and f.slice.value == 1:
-            base, bp = _value_at(cfg, fi.node, f.value, cn[0])
-            if any(base is r.value for r in reads) or (match("%s[$k]" % F, base) and _is_req_key(cfg, fi.node, base.slice, cn[0], req)):
-                stops.add(cn[0])
+        if cn and from_read(call.func, cn[0], (1,))[0]:
+            stops.add(cn[0])
+    member, absent = _presence_nodes(flow, cfg, F, reads, lambda e_, at: _is_req_key(flow, e_, at, req))
     anchor = reads[0] if reads else ST
-    ctx.ob("an existing request on the same (token, remote) is detected before the new one is stored", bool(present) and all(cfg.must_pass(cfg.entry, tests, to=st) for _ in (0,)), fi, anchor if present else ST)
-    ctx.ob("the stopper of the overridden request is called before the new pipe is stored", bool(stops) and all(cfg.must_pass(t, stops, to=st) for t in present), fi, anchor,
+    ctx.ob("an existing request on the same (token, remote) is detected before the new one is stored", bool(reads) and cfg.must_pass(cfg.entry, readnodes | member, to=st), fi, anchor)
+    ctx.ob("the stopper of the overridden request is called before the new pipe is stored", bool(stops) and cfg.must_pass(cfg.entry, stops | absent, to=st), fi, anchor,
            detail="%d stopper call(s) on the override path" % len(stops))
-    # rendering starts only after the bookkeeping is complete
+    # --- rendering starts only after the bookkeeping is complete
     rend = [c for c, bb in find("self.context.render_to_pipe($x)", fi.node)]
     ctx.floor("render_to_pipe calls in process_request", len(rend), 1)
     for c in rend:
         cn = _n1(ctx, cfg, c, "render_to_pipe call")
-        x = c.args[0]
-        okx = isinstance(x, ast.Name) and isinstance(val.elts[0], ast.Name) and x.id == val.elts[0].id and [i for i, _ in _reaching(cfg, fi.node, x.id, cn)[0]] == [i for i, _ in _reaching(cfg, fi.node, x.id, st)[0]]
-        ctx.ob("rendering is started on the stored pipe, after it was stored", okx and cfg.dominates(st, cn), fi, c)
+        ctx.ob("rendering is started on the stored pipe, after it was stored", _same_value(flow.origins(c.args[0], cn), po) and cfg.dominates(st, cn), fi, c)
     ctx.ob("every request that is stored is also rendered", cfg.must_pass(st, {i for c in rend for i in _rn(cfg, c)}), fi, ST)
-    # cleanup on interest end
-    ends = [(c, bb) for c, bb in find("$p.on_interest_end($f)", fi.node) if isinstance(bb["p"], ast.Name) and isinstance(val.elts[0], ast.Name) and bb["p"].id == val.elts[0].id]
+    # --- cleanup on interest end
+    ends = [(c, bb) for c, bb in find("$p.on_interest_end($f)", fi.node) if _rn(cfg, c) and _same_value(flow.origins(bb["p"], _rn(cfg, c)[0]), po)]
     okc = False
     for c, bb in ends:
-        fn = _nested_callable(fi.node, bb["f"])
-        if fn is None:
+        cn = _rn(cfg, c)[0]
+        fexpr = bb["f"]
+        fo, fp_ = _single(flow.origins(fexpr, cn))
+        if isinstance(fo, ast.Call) and K._is_partial(prog, fi, fo) and fo.args and isinstance(fo.args[0], ast.Attribute) and fo.args[0].attr == "pop" \
+                and flow.denotes_field(fo.args[0].value, F, cn) and len(fo.args) >= 2 and _is_req_key(flow, fo.args[1], cn, req):
+            okc = True  # functools.partial(self.incoming_requests.pop, key[, default])
             continue
-        for k, n in stores_to(fn, F, nested=False):
-            key = None
+        cb = K.resolve_callable(prog, fi, fexpr)
+        if cb is None or cb.free_params():
+            continue
+        for k, n in stores_to_any(cb.fnode, "incoming_requests"):
+            key = recv = None
             if k == "delitem":
-                key = n.targets[0].slice
+                key, recv = n.targets[0].slice, n.targets[0].value
             elif k == "pop" and n.args:
-                key = n.args[0]
-            if isinstance(key, ast.Name) and _closure_ref(fn, key.id, key.id) and _is_req_key(cfg, fi.node, key, cfg.exit, req):
+                key, recv = n.args[0], n.func.value
+            if key is None or not (isinstance(recv, ast.Attribute) and _denotes(cb, recv.value, "self")):
+                continue
+            outer = cb.outer(key.id) if isinstance(key, ast.Name) else None
+            if outer is not None and _is_req_key(flow, outer, cfg.exit if isinstance(outer, ast.Name) and cb.closure and key.id == outer.id else cn, req):
                 okc = True
     ctx.ob("the entry is removed from incoming_requests when interest in the pipe ends", okc, fi, ends[0][0] if ends else ST)
-    return fi, cfg, ST, st, val, handler, req
+    return fi, cfg, flow, ST, st, so_, handler
 
 
-def _e_monitor(ctx, fi, cfg, ST, st, val, handler, req):
+def _e_monitor(ctx, fi, cfg, flow, ST, st, so_, handler):
     """the event handler hands the stopper to the token interface as message-error monitor"""
     if handler is None:
         return
-    sends = [(c, b) for c, b in find("self.token_interface.send_message($*a, $**k)", handler)]
+    selfn = None
+    for nm in ("self",):
+        o = handler.outer(nm)
+        if isinstance(o, ast.Name) and o.id == "self":
+            selfn = nm
+    sends = [(c, b) for c, b in find("$s.token_interface.send_message($*a, $**k)", handler.fnode) if _denotes(handler, b["s"], "self")]
     ctx.floor("send_message calls in the event handler", len(sends), 1)
     for c, b in sends:
         mon = _kw(c, "messageerror_monitor", 1)
-        ok = isinstance(mon, ast.Name) and isinstance(val.elts[1], ast.Name) and mon.id == val.elts[1].id and _closure_ref(handler, mon.id, mon.id)
-        if ok:
-            # closure: the binding live when the handler runs is the one at the end of process_request
-            r1, l1 = _reaching(cfg, fi.node, mon.id, cfg.exit)
-            r2, _ = _reaching(cfg, fi.node, mon.id, st)
-            ok = not l1 and len(r1) == 1 and [x for x, _ in r1] == [x for x, _ in r2]
+        ok = False
+        if isinstance(mon, ast.Name):
+            outer = handler.outer(mon.id)
+            if isinstance(outer, ast.Name) and handler.closure and outer.id == mon.id and handler.bind.get(mon.id) is None:
+                # free variable: the binding live when the handler runs is the one at the end of process_request
+                ok = _same_value(flow.origins(outer, cfg.exit), so_) and _same_value(flow.origins(outer, st), so_)
+            elif outer is not None:
+                ok = _same_value(flow.origins(outer, st), so_)
         ctx.ob("the message-error monitor passed with every response is the stored stopper of this request", ok, fi, c, detail="monitor argument: %s" % (stmt_text(mon) if mon is not None else "missing"))
 
 
-def _second_of_pop(fi, cfg, field):
-    """[(stmt, node id, monitor/first name, second name)] for `(a, b) = self.<field>.pop(k)`"""
-    out = []
-    for n in walk_no_nested(fi.node):
-        if isinstance(n, ast.Assign) and len(n.targets) == 1 and isinstance(n.targets[0], (ast.Tuple, ast.List)) and len(n.targets[0].elts) == 2 \
-                and all(isinstance(e, ast.Name) for e in n.targets[0].elts):
-            if match("%s.pop($k, $*d)" % field, n.value) is not None or match("%s[$k]" % field, n.value) is not None:
-                ids = _rn(cfg, n)
-                if ids:
-                    out.append((n, ids[0], n.targets[0].elts[0].id, n.targets[0].elts[1].id))
-    return out
-
-
-def _passes_param(ctx, fi, callpat, argpos, kwname, param, what, floor=1):
+def _passes_param(ctx, fi, flow, callpat, argpos, kwname, param, what, floor=1):
+    cfg = flow.cfg
     calls = [c for c, _ in find(callpat, fi.node)]
     ctx.floor("%s in %s" % (what, fi.short), len(calls), floor)
     for c in calls:
         a = _kw(c, kwname, argpos)
-        ctx.ob("%s passes the message-error monitor on unchanged" % fi.short.split(".")[-1], isinstance(a, ast.Name) and a.id == param and not writes_to_name(fi.node, param), fi, c)
+        cn = _rn(cfg, c)
+        ctx.ob("%s passes the message-error monitor on unchanged" % fi.short.split(".")[-1], a is not None and bool(cn) and _is_param_value(flow, a, cn[0], param), fi, c)
+
+
+def _arg_origins(flow, call, kwname, pos, at):
+    """origins of the argument a call passes for parameter (kwname / position pos): a keyword, a positional
+    argument, or component (pos - i) of a starred tuple at position i (`f(*entry)`)"""
+    for k in call.keywords:
+        if k.arg == kwname:
+            return flow.origins(k.value, at)
+    for i, a in enumerate(call.args):
+        if isinstance(a, ast.Starred):
+            return [flow._index(v, pth + (pos - i,)) for v, pth in flow.origins(a.value, at)]
+        if i == pos:
+            return flow.origins(a, at)
+    return []
+
+
+def _is_entry_of(flow, e, at, field):
+    """every (non-None) value of e is the value of an entry of the dict in `field` (F[k], F.get(k), F.setdefault(k, d))"""
+    o = _not_none(flow.origins(e, at))
+    return bool(o) and all(pth == () and isinstance(v, ast.AST) and (flow.entry_read(v, field, at) or (None,))[0] == "value" for v, pth in o)
 
 
 def _e_message_layer(ctx):
@@ -793,198 +882,440 @@ def _e_message_layer(ctx):
     sm = prog.func(MM + "send_message")
     sp = params(sm)
     ctx.need(len(sp) == 2, "MessageManager.send_message signature changed")
-    _passes_param(ctx, sm, "self._send_initially($*a, $**k)", 1, "messageerror_monitor", sp[1], "_send_initially calls")
-    apps = [n for k, n in stores_to(sm.node, "self._backlogs", nested=False) if k == "append"]
+    sflow = K.Flow(prog, sm)
+    _passes_param(ctx, sm, sflow, "self._send_initially($*a, $**k)", 1, "messageerror_monitor", sp[1], "_send_initially calls")
+    apps = []
+    for c in calls_in(sm.node):
+        if isinstance(c.func, ast.Attribute) and c.func.attr in ("append", "appendleft", "insert") and _rn(sflow.cfg, c) and _is_entry_of(sflow, c.func.value, _rn(sflow.cfg, c)[0], "self._backlogs"):
+            apps.append(c)
     ctx.floor("backlog insertions in send_message", len(apps), 1)
     for n in apps:
-        t = n.args[0] if n.args else None
-        ctx.ob("a backlogged message keeps its message-error monitor", isinstance(t, ast.Tuple) and len(t.elts) == 2 and isinstance(t.elts[1], ast.Name) and t.elts[1].id == sp[1] and not writes_to_name(sm.node, sp[1]), sm, n)
+        at = _rn(sflow.cfg, n)[0]
+        t, tp_ = _single(sflow.origins(n.args[-1], at)) if n.args else (None, None)
+        ctx.ob("a backlogged message keeps its message-error monitor", isinstance(t, ast.Tuple) and tp_ == () and len(t.elts) == 2 and _is_param_value(sflow, t.elts[1], at, sp[1]), sm, n)
     cb = prog.func(MM + "_continue_backlog")
-    ccfg = cfg_of(cb)
-    pops = []
-    for n in walk_no_nested(cb.node):
-        if isinstance(n, ast.Assign) and isinstance(n.targets[0], (ast.Tuple, ast.List)) and len(n.targets[0].elts) == 2 and isinstance(n.value, ast.Call) \
-                and isinstance(n.value.func, ast.Attribute) and n.value.func.attr in ("pop", "popleft") and any(n.value is x for k_, x in stores_to(cb.node, "self._backlogs", nested=False) if k_ in ("pop", "popleft")):
-            pops.append(n)
-    ctx.floor("backlog removals in _continue_backlog", len(pops), 1)
-    for n in pops:
-        m_, mon = [e.id if isinstance(e, ast.Name) else None for e in n.targets[0].elts]
-        nid = _n1(ctx, ccfg, n, "backlog pop")
-        sends = [c for c, b in find("self._send_initially($*a, $**k)", cb.node) if _rn(ccfg, c) and ccfg.dominates(nid, _rn(ccfg, c)[0])]
-        ok = bool(sends) and all(isinstance(_kw(c, "messageerror_monitor", 1), ast.Name) and _kw(c, "messageerror_monitor", 1).id == mon
-                                 and [x for x, _ in _reaching(ccfg, cb.node, mon, _rn(ccfg, c)[0])[0]] == [nid] for c in sends)
-        ctx.ob("a message leaving the backlog is sent with the monitor it was queued with", ok, cb, n)
+    cflow = K.Flow(prog, cb)
+    ccfg = cflow.cfg
+    nsend = 0
+    for c, _ in find("self._send_initially($*a, $**k)", cb.node):
+        cn = _rn(ccfg, c)
+        if not cn:
+            continue
+        mv, mp_ = _single(_arg_origins(cflow, c, "messageerror_monitor", 1, cn[0]))
+        gv, gp = _single(_arg_origins(cflow, c, "message", 0, cn[0]))
+        ok = isinstance(mv, ast.Call) and isinstance(mv.func, ast.Attribute) and mv.func.attr in ("pop", "popleft") and mp_ == (1,) and gv is mv and gp == (0,) \
+            and bool(_rn(ccfg, mv)) and _is_entry_of(cflow, mv.func.value, _rn(ccfg, mv)[0], "self._backlogs")
+        nsend += 1
+        ctx.ob("a message leaving the backlog is sent with the monitor it was queued with", ok, cb, c)
+    ctx.floor("backlog removals in _continue_backlog", nsend, 1)
     si = prog.func(MM + "_send_initially")
     ip = params(si)
     ctx.need(len(ip) == 2, "_send_initially signature changed")
-    _passes_param(ctx, si, "self._add_exchange($*a, $**k)", 1, "messageerror_monitor", ip[1], "_add_exchange calls")
+    _passes_param(ctx, si, K.Flow(prog, si), "self._add_exchange($*a, $**k)", 1, "messageerror_monitor", ip[1], "_add_exchange calls")
     ae = prog.func(MM + "_add_exchange")
     ap = params(ae)
     ctx.need(len(ap) == 2, "_add_exchange signature changed")
+    aflow = K.Flow(prog, ae)
     ins = [n for k, n in stores_to(ae.node, "self._active_exchanges", nested=False) if k == "setitem"]
     ctx.floor("exchange insertions", len(ins), 1)
     for n in ins:
-        v = n.value if isinstance(n, ast.Assign) else None
-        ctx.ob("the exchange stores the message-error monitor of the message", isinstance(v, ast.Tuple) and len(v.elts) == 2 and isinstance(v.elts[0], ast.Name) and v.elts[0].id == ap[1] and not writes_to_name(ae.node, ap[1]), ae, n)
+        at = _rn(aflow.cfg, n)
+        v, vp_ = _single(aflow.origins(n.value, at[0])) if isinstance(n, ast.Assign) and at else (None, None)
+        ctx.ob("the exchange stores the message-error monitor of the message", isinstance(v, ast.Tuple) and vp_ == () and len(v.elts) == 2 and _is_param_value(aflow, v.elts[0], at[0], ap[1]), ae, n)
     rt = prog.func(MM + "_retransmit")
-    rcfg = cfg_of(rt)
-    pp = _second_of_pop(rt, rcfg, "self._active_exchanges")
-    ctx.floor("exchange pops in _retransmit", len(pp), 1)
+    rflow = K.Flow(prog, rt)
+    rcfg = rflow.cfg
     reins = [n for k, n in stores_to(rt.node, "self._active_exchanges", nested=False) if k == "setitem"]
     ctx.floor("exchange re-insertions in _retransmit", len(reins), 1)
     for n in reins:
-        v = n.value if isinstance(n, ast.Assign) else None
         nid = _n1(ctx, rcfg, n, "re-insertion")
-        ok = isinstance(v, ast.Tuple) and len(v.elts) == 2 and isinstance(v.elts[0], ast.Name)
+        v, vp_ = _single(rflow.origins(n.value, nid)) if isinstance(n, ast.Assign) else (None, None)
+        ok = isinstance(v, ast.Tuple) and vp_ == () and len(v.elts) == 2
         if ok:
-            ws, live = _reaching(rcfg, rt.node, v.elts[0].id, nid)
-            ok = not live and len(ws) == 1 and any(ws[0][1] is q[0] and q[2] == v.elts[0].id for q in pp)
+            mv, mp_ = _single(rflow.origins(v.elts[0], nid))
+            ok = isinstance(mv, ast.AST) and mp_ == (0,) and (rflow.entry_read(mv, "self._active_exchanges", nid) or (None,))[0] == "value"
         ctx.ob("a retransmitted exchange keeps its message-error monitor", ok, rt, n)
     rm = prog.func(MM + "_remove_exchange")
     mp = params(rm)
-    mcfg = cfg_of(rm)
-    pp = _second_of_pop(rm, mcfg, "self._active_exchanges")
-    ctx.floor("exchange pops in _remove_exchange", len(pp), 1)
-    for n, nid, mon, han in pp:
-        fired = []
-        for c in calls_in(rm.node):
-            if isinstance(c.func, ast.Name) and c.func.id == mon and not c.args and _rn(mcfg, c):
-                cn = _rn(mcfg, c)[0]
-                if [x for x, _ in _reaching(mcfg, rm.node, mon, cn)[0]] == [nid]:
-                    fired.append((c, cn))
-        if not ctx.ob("a Reset on a notification fires the stored message-error monitor", bool(fired), rm, n):
+    mflow = K.Flow(prog, rm)
+    mcfg = mflow.cfg
+    fired = []
+    readsites = {}
+    for c in _noarg_calls(rm.node):
+        cn = _rn(mcfg, c)
+        if not cn:
             continue
-        rst_ok = False
-        for c, cn in fired:
-            inner = [(e, pol) for e, pol, g in mcfg.guards(cn) if mcfg.dominates(nid, g)]
-            alive, others = mtype_values(inner, "%s.mtype" % mp[0], ("CON", "NON", "ACK", "RST"))
-            if "RST" in alive and not others:
-                rst_ok = True
-        ctx.ob("no condition other than the message type stands between a matching Reset and the monitor", rst_ok, rm, fired[0][0])
+        v, vp_ = _single(mflow.origins(c.func, cn[0]))
+        if isinstance(v, ast.AST) and vp_ == (0,) and (mflow.entry_read(v, "self._active_exchanges", cn[0]) or (None,))[0] == "value" and _rn(mcfg, v):
+            fired.append((c, cn[0], _rn(mcfg, v)[0]))
+    pops = [n for n in walk_no_nested(rm.node) if isinstance(n, (ast.Call, ast.Subscript)) and not isinstance(getattr(n, "ctx", None), (ast.Store, ast.Del)) and _rn(mcfg, n)
+            and (mflow.entry_read(n, "self._active_exchanges", _rn(mcfg, n)[0]) or (None,))[0] == "value"]
+    ctx.floor("exchange reads in _remove_exchange", len(pops), 1)
+    if ctx.ob("a Reset on a notification fires the stored message-error monitor", bool(fired), rm, pops[0]):
+        from ..paths import PathModel
+        subj = "%s.mtype" % mp[0]
+        pm = PathModel(rm, subjects={subj: ["CON", "NON", "ACK", "RST"]})
+        for r in sorted({r for _, _, r in fired}):
+            calls_r = {cn for _, cn, r2 in fired if r2 == r}
+            rd = [v for v in pops if mflow.site(v) == r]
+            _, absent = _presence_nodes(mflow, mcfg, "self._active_exchanges", rd, lambda e_, at: True)
+            bad = [p_ for p_ in pm.paths() if r in p_.nodes and p_.end in ("return", "fall") and p_.values.get(subj, "RST") == "RST" and not (absent & set(p_.nodes))
+                   and not any(x in calls_r and p_.nodes.index(x) > p_.nodes.index(r) for x in p_.nodes)]
+            ctx.ob("no condition other than the message type stands between a matching Reset and the monitor", not bad, rm, [c for c, _, r2 in fired if r2 == r][0],
+                   detail=None if not bad else "a path on which the monitor is not fired for a Reset: %s" % pm.describe(bad[0]))
+
+
+# -- collections of stoppers -----------------------------------------------------------------------------------
+
+
+class _Sel:
+    """a selection of stoppers out of incoming_requests: the loop or comprehension (scope) that scans the table,
+    the stopper element, the conditions under which an entry is taken, whether the table was copied for the scan"""
+
+    def __init__(self, scope, elem, conds, copied, site):
+        self.scope, self.elem, self.conds, self.copied, self.site = scope, elem, conds, copied, site
+
+
+def _conj(e, pol=True):
+    """[(atomic condition, polarity)] of a conjunction; None when e is not a conjunction of literals"""
+    while isinstance(e, ast.UnaryOp) and isinstance(e.op, ast.Not):
+        e, pol = e.operand, not pol
+    if isinstance(e, ast.BoolOp) and ((isinstance(e.op, ast.And) and pol) or (isinstance(e.op, ast.Or) and not pol)):
+        out = []
+        for v in e.values:
+            r = _conj(v, pol)
+            if r is None:
+                return None
+            out.extend(r)
+        return out
+    if isinstance(e, ast.BoolOp):
+        return None
+    return [(e, pol)]
+
+
+def _stopper_sel(flow, cfg, e, at, F):
+    """_Sel when every value of e is the stopper (component 1 of the value) of an entry produced by scanning F"""
+    o = flow.origins(e, at)
+    if len(o) != 1:
+        return None
+    v, pth = o[0]
+    if isinstance(v, ast.AST):
+        # F[k] / F.get(k) under the key the scan is at: the value of that entry
+        er = flow.entry_read(v, F, flow.site(v, at))
+        if er is None or er[0] != "value" or er[1] is None or pth != (1,):
+            return None
+        kv, kp = _single(flow.origins(er[1], flow.site(v, at)))
+        if not (isinstance(kv, K.Elem) and flow.entry_read(kv, F) is not None and K.entry_component(flow.entry_read(kv, F)[0], kp) == ("key", ())):
+            return None
+        v = kv
+    else:
+        if not isinstance(v, K.Elem):
+            return None
+        er = flow.entry_read(v, F)
+        if er is None or K.entry_component(er[0], pth) != ("value", (1,)):
+            return None
+    copied = K.unwrap_iter(v.it)[1]
+    if isinstance(v.it, ast.Call) and isinstance(v.it.func, ast.Attribute) and v.it.func.attr in ("items", "values", "keys"):
+        copied = copied or K.unwrap_iter(v.it.func.value)[1]
+    if isinstance(v.scope, (ast.For, ast.AsyncFor)):
+        conds = [(c_, pol) for c_, pol, g in cfg.guards(at) if c_ is not v.scope and _inside(v.scope, c_)] if at is not None else None
+    else:
+        conds = []
+        for g in v.scope.generators:
+            for i_ in g.ifs:
+                cj = _conj(i_)
+                conds = None if (conds is None or cj is None) else conds + cj
+    return _Sel(v.scope, v, conds, copied, at)
+
+
+def _elements(flow, cfg, e, at, F, depth=6):
+    """([_Sel] of the stopper selections among the elements of collection expression e at node `at`, understood?)"""
+    if depth == 0 or e is None:
+        return [], False
+    if isinstance(e, ast.Starred):
+        return _elements(flow, cfg, e.value, at, F, depth - 1)
+    if isinstance(e, (ast.List, ast.Tuple, ast.Set)):
+        out = []
+        for x in e.elts:
+            if isinstance(x, ast.Starred):
+                r = _elements(flow, cfg, x.value, at, F, depth - 1)[0]
+                for s_ in r:
+                    s_.lazy = False  # a display evaluates its starred parts at once
+                out.extend(r)
+            else:
+                s_ = _stopper_sel(flow, cfg, x, at, F)
+                if s_ is not None:
+                    out.append(s_)
+        return out, True
+    if isinstance(e, (ast.ListComp, ast.SetComp, ast.GeneratorExp)):
+        s_ = _stopper_sel(flow, cfg, e.elt, at, F)
+        if s_ is not None and s_.scope is e:
+            if isinstance(e, ast.GeneratorExp):
+                s_.lazy = True
+            return [s_], True
+        return [], True
+    if isinstance(e, ast.BinOp) and isinstance(e.op, ast.Add):
+        a, oka = _elements(flow, cfg, e.left, at, F, depth - 1)
+        b, okb = _elements(flow, cfg, e.right, at, F, depth - 1)
+        return a + b, oka and okb
+    if isinstance(e, ast.Call):
+        c = chain(e.func)
+        if c in ("list", "tuple", "set", "sorted", "reversed", "iter") and len(e.args) == 1:
+            r, ok = _elements(flow, cfg, e.args[0], at, F, depth - 1)
+            for s_ in r:
+                s_.lazy = False
+            return r, ok
+        if c in ("itertools.chain", "chain"):
+            out, ok = [], True
+            for x in e.args:
+                r, k = _elements(flow, cfg, x, at, F, depth - 1)
+                out.extend(r)
+                ok = ok and k
+            return out, ok
+        return [], False
+    if isinstance(e, ast.Name):
+        ws, live = flow.reaching(e.id, at)
+        if live or not ws:
+            return [], False
+        out, ok = [], True
+        wids = {nid for nid, _ in flow.write_nodes(e.id)}
+        for nid, w in ws:
+            if isinstance(w, ast.Assign) and len(w.targets) == 1 and isinstance(w.targets[0], ast.Name):
+                r, k = _elements(flow, cfg, w.value, nid, F, depth - 1)
+                out.extend(r)
+                ok = ok and k
+            elif isinstance(w, ast.AugAssign) and isinstance(w.op, ast.Add):
+                r, k = _elements(flow, cfg, w.value, nid, F, depth - 1)
+                for s_ in r:
+                    s_.lazy = False
+                out.extend(r)
+                r2, k2 = _elements_before(flow, cfg, e, nid, F, depth - 1)
+                out.extend(r2)
+                ok = ok and k and k2
+            else:
+                ok = False
+        # mutations of the list that can still be in effect at `at`
+        for c in calls_in(flow.fnode):
+            if isinstance(c.func, ast.Attribute) and isinstance(c.func.value, ast.Name) and c.func.value.id == e.id and c.func.attr in ("append", "extend", "add", "update", "insert", "appendleft"):
+                for cn in flow.rn(c):
+                    if cn != at and at in cfg.reach({cn}, avoid=wids - {at}):
+                        if c.func.attr in ("append", "add", "insert", "appendleft") and c.args:
+                            s_ = _stopper_sel(flow, cfg, c.args[-1], cn, F)
+                            if s_ is not None:
+                                out.append(s_)
+                        elif c.args:
+                            r, k = _elements(flow, cfg, c.args[0], cn, F, depth - 1)
+                            for s_ in r:
+                                s_.lazy = False  # extend()/update() consume their argument at once
+                            out.extend(r)
+                            ok = ok and k
+        return out, ok
+    return [], False
+
+
+def _elements_before(flow, cfg, name_node, nid, F, depth):
+    """elements of a list just before the augmented assignment at node nid"""
+    preds = [p for p, lab in cfg.pred[nid] if lab != "exc"]
+    if len(preds) != 1:
+        return [], False
+    return _elements(flow, cfg, ast.Name(id=name_node.id, ctx=ast.Load()), nid, F, depth)
+
+
+def _early_returns(cfg, site):
+    """return nodes that are not reachable from the scan (exits taken before it) under an `... is None` guard"""
+    after = cfg.reach({site}, include_src=True)
+    return {n.id for n in cfg.nodes if n.kind == "return" and n.id not in after and cfg.is_reachable(n.id)
+            and any(isinstance(e, ast.Compare) and isinstance(e.ops[0], (ast.Is, ast.IsNot)) and isinstance(e.comparators[0], ast.Constant) and e.comparators[0].value is None
+                    for e, pol, g in cfg.guards(n.id))}
+
+
+def _e_dispatch_error(ctx):
+    """Stoppers of the failing remote's incoming requests are selected by equality of the remote alone and every one
+    of them is called -- whether the scan is a loop with append, a comprehension, `extend(<generator>)`, a
+    concatenation of lists, or calls the stoppers directly over a copy of the table."""
+    prog = ctx.prog
+    fi = prog.func(TM + "dispatch_error")
+    p = params(fi)
+    ctx.need(len(p) == 2, "TokenManager.dispatch_error signature changed")
+    remote = p[1]
+    ctx.need(not writes_to_name(fi.node, remote), "remote parameter rebound")
+    cfg = cfg_of(fi)
+    flow = K.Flow(prog, fi, cfg)
+    F = TMF
+    used = []  # (_Sel, call, call node, run loop or None)
+    for c in _noarg_calls(fi.node):
+        cn = _rn(cfg, c)
+        if not cn:
+            continue
+        s_ = _stopper_sel(flow, cfg, c.func, cn[0], F)
+        if s_ is not None:
+            used.append((s_, c, cn[0], None))
+            continue
+        v, pth = _single(flow.origins(c.func, cn[0]))
+        if isinstance(v, K.Elem) and pth == () and isinstance(v.scope, (ast.For, ast.AsyncFor)):
+            heads = _rn(cfg, v.scope)
+            if heads:
+                sels, _ = _elements(flow, cfg, v.it, heads[0], F)
+                for s_ in sels:
+                    used.append((s_, c, cn[0], v.scope))
+    # collection sites that exist although nothing calls what they collect
+    scans = [n for n in ast.walk(fi.node) if isinstance(n, (ast.For, ast.ListComp, ast.SetComp, ast.GeneratorExp)) and not isinstance(n, ast.Lambda)
+             and flow.entry_read(K.Elem(n.iter if isinstance(n, ast.For) else n.generators[0].iter, n), F) is not None]
+    anchor = scans[0] if scans else fi.node
+    if not ctx.ob("the stopper of a matching incoming request is called or collected, and every collected stopper is called after the scan", bool(used), fi, anchor,
+                  construct="scan of self.incoming_requests" if scans else "TokenManager.dispatch_error"):
+        return
+    seen = set()
+    for s_, c, cn, run in used:
+        site = s_.site if s_.site is not None else cn
+        scan_nodes = _rn(cfg, s_.scope)
+        ctx.need(bool(scan_nodes), "scan of incoming_requests unreachable")
+        sn = scan_nodes[0]
+        if id(s_.scope) not in seen:
+            seen.add(id(s_.scope))
+            outer = [(e, pol) for e, pol, g in cfg.guards(sn)]
+            bad = [e for e, pol in outer if not isinstance(e, ast.stmt) and (remote in names_in(e) or p[0] in names_in(e) or not all((chain(x) or "").startswith("self.") for x in ast.walk(e) if isinstance(x, ast.Attribute) and isinstance(x.value, ast.Name)))]
+            ctx.ob("the scan over incoming requests is reached for every error outside shutdown", not bad and cfg.must_pass(cfg.entry, {sn} | _early_returns(cfg, sn)), fi, s_.scope,
+                   construct="scan of self.incoming_requests", detail="; ".join(stmt_text(e) for e in bad) or None)
+            if isinstance(s_.scope, ast.For):
+                cut = [n for n in walk_no_nested(s_.scope) if isinstance(n, (ast.Break, ast.Return)) and n is not s_.scope]
+                ctx.ob("the scan covers the whole table", not cut, fi, cut[0] if cut else s_.scope, construct=None if cut else "scan of self.incoming_requests")
+            # selection condition
+            eq, rest = [], []
+            if s_.conds is None:
+                rest.append(s_.scope)
+            for e, pol in (s_.conds or []):
+                e2, pol2 = e, pol
+                while isinstance(e2, ast.UnaryOp) and isinstance(e2.op, ast.Not):
+                    e2, pol2 = e2.operand, not pol2
+                good = False
+                if isinstance(e2, ast.Compare) and len(e2.ops) == 1 and ((isinstance(e2.ops[0], ast.Eq) and pol2) or (isinstance(e2.ops[0], ast.NotEq) and not pol2)):
+                    sides = [e2.left, e2.comparators[0]]
+                    rs = [x for x in sides if isinstance(x, ast.Name) and x.id == remote]
+                    os_ = [x for x in sides if not (isinstance(x, ast.Name) and x.id == remote)]
+                    if len(rs) == 1 and len(os_) == 1:
+                        at_ = (flow.rn(e2) or [site])[0]
+                        v, pth = _single(flow.origins(os_[0], at_))
+                        if isinstance(v, K.Elem) and v.scope is s_.scope and flow.entry_read(v, F) is not None and K.entry_component(flow.entry_read(v, F)[0], pth) == ("key", (1,)):
+                            good = True
+                (eq if good else rest).append(e)
+            ctx.ob("requests are selected by equality of their remote with the failing remote, and by nothing else", len(eq) >= 1 and not rest, fi, s_.scope if not isinstance(s_.scope, ast.For) else c,
+                   construct="selection in the scan of self.incoming_requests",
+                   detail=("other conditions: %s" % "; ".join(stmt_text(e) for e in rest)) if rest else None)
+        if run is None:
+            ctx.ob("stoppers (which modify incoming_requests) are not called while the dict is iterated", s_.copied, fi, c)
+        else:
+            ctx.ob("stoppers (which modify incoming_requests) are not called while the dict is iterated", not getattr(s_, "lazy", False) or s_.copied, fi, c)
+            inner = [e for e, pol, g in cfg.guards(cn) if e is not run and _inside(run, e)]
+            h2 = set(_rn(cfg, run))
+            after = [d for x in ([site] if site is not None else []) for d, lab in cfg.succ[x] if lab != "exc"]
+            fnodes = [n.id for n in cfg.nodes if n.kind == "F" and n.ast is s_.scope and cfg.is_reachable(n.id)] if isinstance(s_.scope, ast.For) else after
+            ctx.ob("every collected stopper is called after the scan", not inner and bool(h2) and all(cfg.must_pass(f_, h2) for f_ in fnodes) and not _inside(s_.scope, run), fi, c)
+
+
+def _e_shutdown(ctx):
+    prog = ctx.prog
+    fi = prog.func(TM + "shutdown")
+    cfg = cfg_of(fi)
+    flow = K.Flow(prog, fi, cfg)
+    F = TMF
+    resets = [n for k, n in stores_to(fi.node, F, nested=False) if k == "assign"]
+    done = False
+    handled = set()
+    for c in _noarg_calls(fi.node):
+        cn = _rn(cfg, c)
+        if not cn:
+            continue
+        v, pth = _single(flow.origins(c.func, cn[0]))
+        if v is None or not isinstance(v, (ast.AST, K.Elem)):
+            continue
+        at_v = flow.site(v, cn[0])
+        er = flow.entry_read(v, F, at_v)
+        if er is None or K.entry_component(er[0], pth) != ("value", (1,)):
+            continue
+        scan = v if isinstance(v, K.Elem) else None
+        if scan is None and er[1] is not None:
+            # `for k in list(F): ... F.pop(k)[1]()` / `F[k][1]()`: the entry of the key the loop is at
+            kv, kp = _single(flow.origins(er[1], at_v))
+            if isinstance(kv, K.Elem) and flow.entry_read(kv, F) is not None and K.entry_component(flow.entry_read(kv, F)[0], kp) == ("key", ()):
+                scan = kv
+        if scan is not None:
+            lp = scan.scope
+            if not isinstance(lp, (ast.For, ast.AsyncFor)) or id(lp) in handled:
+                continue
+            handled.add(id(lp))
+            copied = K.unwrap_iter(scan.it)[1] or (isinstance(scan.it, ast.Call) and isinstance(scan.it.func, ast.Attribute) and K.unwrap_iter(scan.it.func.value)[1])
+            inner = [e for e, pol, g in cfg.guards(cn[0]) if e is not lp and _inside(lp, e)]
+            ctx.ob("the stopper of every incoming request is called at shutdown", not inner, fi, lp, construct="for ... in self.incoming_requests")
+            ctx.ob("stoppers (which modify incoming_requests) are not called while the dict is iterated", bool(copied), fi, lp, construct="for ... in self.incoming_requests")
+            ctx.ob("shutdown reaches the stop-all loop on every path", cfg.must_pass(cfg.entry, set(_rn(cfg, lp))), fi, lp, construct="for ... in self.incoming_requests")
+            fn = [n.id for n in cfg.nodes if n.kind == "F" and n.ast is lp and cfg.is_reachable(n.id)]
+            for rs in resets:
+                ctx.ob("incoming_requests is dropped only after every request was stopped", all(any(cfg.dominates(f_, i) for f_ in fn) for i in _rn(cfg, rs)), fi, rs)
+            done = True
+            continue
+        if not er[2]:
+            continue  # a read that leaves the entry in place does not drain the table
+        lp = _enclosing_loop(cfg, c)
+        if not isinstance(lp, ast.While) or id(lp) in handled:
+            continue
+        t = lp.test
+        if isinstance(t, ast.Compare) and len(t.ops) == 1 and isinstance(t.left, ast.Call) and chain(t.left.func) == "len" and len(t.left.args) == 1:
+            t = t.left.args[0]
+        elif isinstance(t, ast.Call) and chain(t.func) == "len" and len(t.args) == 1:
+            t = t.args[0]
+        head = _n1(ctx, cfg, lp, "shutdown loop")
+        if not flow.denotes_field(t, F, head):
+            continue
+        handled.add(id(lp))
+        tnode = [n.id for n in cfg.nodes if n.kind == "T" and n.stmt is lp and cfg.is_reachable(n.id)]
+        fnode = [n.id for n in cfg.nodes if n.kind == "F" and n.stmt is lp and cfg.is_reachable(n.id)]
+        ctx.need(bool(tnode), "loop test node missing")
+        # all removing reads of the table inside the loop, and the calls of their stoppers
+        pops = {}
+        for c2 in _noarg_calls(lp):
+            cn2 = _rn(cfg, c2)
+            if not cn2:
+                continue
+            v2, p2 = _single(flow.origins(c2.func, cn2[0]))
+            if isinstance(v2, ast.AST) and flow.site(v2) is not None:
+                er2 = flow.entry_read(v2, F, flow.site(v2))
+                if er2 is not None and er2[2] and K.entry_component(er2[0], p2) == ("value", (1,)):
+                    pops.setdefault(flow.site(v2), set()).add(cn2[0])
+        if not ctx.ob("each round of the shutdown loop takes an entry out of incoming_requests", bool(pops) and all(cfg.must_pass(t_, set(pops), to=head) for t_ in tnode), fi, lp, construct="while self.incoming_requests"):
+            continue
+        for nid, ks in sorted(pops.items()):
+            ctx.ob("the stopper of every entry taken out at shutdown is called", bool(ks) and all(cfg.must_pass(d, ks, to=head) for d, lab in cfg.succ[nid] if lab != "exc"), fi, cfg.nodes[nid].ast)
+        ctx.ob("shutdown reaches the stop-all loop on every path", cfg.must_pass(cfg.entry, set(fnode) | set(tnode)), fi, lp, construct="while self.incoming_requests")
+        for rs in resets:
+            ctx.ob("incoming_requests is dropped only after every request was stopped", all(any(cfg.dominates(f_, i) for f_ in fnode) for i in _rn(cfg, rs)), fi, rs)
+        done = True
+    ctx.ob("TokenManager.shutdown stops every incoming request", done, fi, resets[0] if resets else fi.node, construct=None if resets else "TokenManager.shutdown")
 
 
 def _calls_of_name(fnode, name, root=None):
     return [c for c in calls_in(root if root is not None else fnode) if isinstance(c.func, ast.Name) and c.func.id == name and not c.args and not c.keywords]
 
 
-def _e_dispatch_error(ctx):
-    fi = ctx.prog.func(TM + "dispatch_error")
-    p = params(fi)
-    ctx.need(len(p) == 2, "TokenManager.dispatch_error signature changed")
-    remote = p[1]
-    ctx.need(not writes_to_name(fi.node, remote), "remote parameter rebound")
-    cfg = cfg_of(fi)
-    F = "self.incoming_requests"
-    loops = [(n, _field_iter(n.iter, F)) for n in walk_no_nested(fi.node) if isinstance(n, ast.For) and _field_iter(n.iter, F) is not None]
-    if not loops:
-        # no explicit loop (e.g. a comprehension): the shared obligations of C02.e decide the same facts
-        # (stoppers collected only for the reported remote's requests, every collected stopper invoked)
-        from . import c02
-        c02.e(ctx)
-        return
-    for lp, (mode, copied) in loops:
-        ctx.need(mode == "items", "dispatch_error iterates incoming_requests.%s(): outside the rule's vocabulary" % mode)
-        names = {}
-        for nm in names_in(lp.target):
-            names[_path_in_target(lp.target, nm)] = nm
-        r, s = names.get((0, 1)), names.get((1, 1))
-        ctx.need(r is not None and s is not None, "loop target does not destructure ((token, remote), (pipe, stopper))")
-        head = _n1(ctx, cfg, lp, "loop")
-        outer = [(e, pol) for e, pol, g in cfg.guards(head)]
-        bad = [e for e, pol in outer if not isinstance(e, ast.stmt) and (remote in names_in(e) or p[0] in names_in(e) or not all((chain(x) or "").startswith("self.") for x in ast.walk(e) if isinstance(x, ast.Attribute) and isinstance(x.value, ast.Name)))]
-        ctx.ob("the scan over incoming requests is reached for every error outside shutdown", not bad and cfg.must_pass(cfg.entry, {head} | _early_returns(cfg, head)), fi, lp,
-               construct="for ... in self.incoming_requests.items()", detail="; ".join(stmt_text(e) for e in bad) or None)
-        # collection / direct call sites of the stopper
-        uses = []
-        for c in calls_in(lp):
-            if isinstance(c.func, ast.Name) and c.func.id == s and not c.args:
-                uses.append(("call", c, None))
-            elif isinstance(c.func, ast.Attribute) and c.func.attr == "append" and len(c.args) == 1 and isinstance(c.args[0], ast.Name) and c.args[0].id == s and isinstance(c.func.value, ast.Name):
-                uses.append(("collect", c, c.func.value.id))
-        if not ctx.ob("the stopper of a matching incoming request is called or collected", bool(uses), fi, lp, construct="for ... in self.incoming_requests.items()"):
-            continue
-        for kind, c, lst in uses:
-            cn = _n1(ctx, cfg, c, "stopper use")
-            inner = [(e, pol) for e, pol, g in cfg.guards(cn) if e is not lp and _inside(lp, e)]
-            eq = []
-            rest = []
-            for e, pol in inner:
-                if isinstance(e, ast.Compare) and len(e.ops) == 1 and {chain(e.left), chain(e.comparators[0])} == {remote, r} \
-                        and ((isinstance(e.ops[0], ast.Eq) and pol) or (isinstance(e.ops[0], ast.NotEq) and not pol)):
-                    eq.append(e)
-                else:
-                    rest.append(e)
-            ctx.ob("requests are selected by equality of their remote with the failing remote, and by nothing else", len(eq) >= 1 and not rest, fi, c,
-                   detail="other conditions: %s" % "; ".join(stmt_text(e) for e in rest) if rest else None)
-            if kind == "call":
-                ctx.ob("stoppers (which modify incoming_requests) are not called while the dict is iterated", copied, fi, c)
-            else:
-                runs = []
-                for l2 in walk_no_nested(fi.node):
-                    if isinstance(l2, ast.For) and l2 is not lp and isinstance(l2.iter, ast.Name) and l2.iter.id == lst and isinstance(l2.target, ast.Name):
-                        cs = _calls_of_name(fi.node, l2.target.id, l2)
-                        for cc in cs:
-                            ccn = _rn(cfg, cc)
-                            g2 = [e for e, pol, g in cfg.guards(ccn[0]) if e is not l2 and _inside(l2, e)] if ccn else [1]
-                            if not g2:
-                                runs.append(l2)
-                h2 = {i for l2 in runs for i in _rn(cfg, l2)}
-                fnode = [n.id for n in cfg.nodes if n.kind == "F" and n.ast is lp and cfg.is_reachable(n.id)]
-                ctx.ob("every collected stopper is called after the scan", bool(h2) and all(cfg.must_pass(f, h2) for f in fnode) and not _inside(lp, runs[0]), fi, c)
-                ctx.ob("the collecting list is not reset between collection and the calls", all(_enclosing_loop(cfg, w) is None and cfg.dominates(x, head) for x, w in _write_nodes(cfg, fi.node, lst)), fi, c)
-
-
-def _early_returns(cfg, head):
-    """return nodes that are not reachable from head (exits taken before the loop)"""
-    after = cfg.reach({head}, include_src=True)
-    return {n.id for n in cfg.nodes if n.kind == "return" and n.id not in after and cfg.is_reachable(n.id)
-            and any(isinstance(e, ast.Compare) and isinstance(e.ops[0], (ast.Is, ast.IsNot)) and isinstance(e.comparators[0], ast.Constant) and e.comparators[0].value is None
-                    for e, pol, g in cfg.guards(n.id))}
-
-
-def _e_shutdown(ctx):
-    fi = ctx.prog.func(TM + "shutdown")
-    cfg = cfg_of(fi)
-    F = "self.incoming_requests"
-    resets = [n for k, n in stores_to(fi.node, F, nested=False) if k == "assign"]
-    done = False
-    for lp in walk_no_nested(fi.node):
-        if isinstance(lp, ast.While) and chain(lp.test) == F:
-            pops = [q for q in _second_of_pop(fi, cfg, F) if _enclosing_loop(cfg, q[0]) is lp]
-            items = []
-            for n in walk_no_nested(lp):
-                if isinstance(n, ast.Assign) and match("%s.popitem()" % F, n.value) is not None:
-                    nm = {_path_in_target(n.targets[0], x): x for x in names_in(n.targets[0])}
-                    if (1, 1) in nm and _rn(cfg, n):
-                        items.append((n, _rn(cfg, n)[0], None, nm[(1, 1)]))
-            pops = pops + items
-            head = _n1(ctx, cfg, lp, "shutdown loop")
-            tnode = [n.id for n in cfg.nodes if n.kind == "T" and n.ast is lp.test and cfg.is_reachable(n.id)]
-            ctx.need(bool(tnode), "loop test node missing")
-            if not ctx.ob("each round of the shutdown loop takes an entry out of incoming_requests", bool(pops) and cfg.must_pass(tnode[0], {q[1] for q in pops}, to=head), fi, lp, construct="while self.incoming_requests"):
-                continue
-            for n, nid, _, s in pops:
-                ks = {i for c in _calls_of_name(fi.node, s, lp) for i in _rn(cfg, c) if [x for x, _ in _reaching(cfg, fi.node, s, i)[0]] == [nid]}
-                ctx.ob("the stopper of every entry taken out at shutdown is called", bool(ks) and all(cfg.must_pass(d, ks, to=head) for d, lab in cfg.succ[nid] if lab != "exc"), fi, n)
-            fn = [n.id for n in cfg.nodes if n.kind == "F" and n.ast is lp.test and cfg.is_reachable(n.id)]
-            ctx.ob("shutdown reaches the stop-all loop on every path", cfg.must_pass(cfg.entry, set(fn) | set(tnode)), fi, lp, construct="while self.incoming_requests")
-            for rs in resets:
-                ctx.ob("incoming_requests is dropped only after every request was stopped", all(any(cfg.dominates(f, i) for f in fn) for i in _rn(cfg, rs)), fi, rs)
-            done = True
-        elif isinstance(lp, ast.For) and _field_iter(lp.iter, F) is not None:
-            mode, copied = _field_iter(lp.iter, F)
-            nm = {_path_in_target(lp.target, x): x for x in names_in(lp.target)}
-            s = nm.get((1, 1)) if mode == "items" else nm.get((1,)) if mode == "values" else None
-            ctx.need(s is not None, "shutdown loop target does not expose the stopper")
-            cs = [c for c in _calls_of_name(fi.node, s, lp) if _rn(cfg, c) and not [e for e, pol, g in cfg.guards(_rn(cfg, c)[0]) if e is not lp and _inside(lp, e)]]
-            ctx.ob("the stopper of every incoming request is called at shutdown", bool(cs), fi, lp, construct="for ... in self.incoming_requests")
-            ctx.ob("stoppers (which modify incoming_requests) are not called while the dict is iterated", copied, fi, lp, construct="for ... in self.incoming_requests")
-            ctx.ob("shutdown reaches the stop-all loop on every path", cfg.must_pass(cfg.entry, set(_rn(cfg, lp))), fi, lp, construct="for ... in self.incoming_requests")
-            fn = [n.id for n in cfg.nodes if n.kind == "F" and n.ast is lp and cfg.is_reachable(n.id)]
-            for rs in resets:
-                ctx.ob("incoming_requests is dropped only after every request was stopped", all(any(cfg.dominates(f, i) for f in fn) for i in _rn(cfg, rs)), fi, rs)
-            done = True
-    ctx.ob("TokenManager.shutdown stops every incoming request", done, fi, resets[0] if resets else fi.node, construct=None if resets else "TokenManager.shutdown")
+def _cancels_task(prog, fi, flow, e, at):
+    """the expression whose `.cancel` is what callable expression e invokes: `t.cancel`, `lambda: t.cancel()`,
+    a nested def calling `t.cancel()`, functools.partial over these; else None"""
+    v, pth = _single(flow.origins(e, at))
+    if pth != () or not isinstance(v, ast.AST):
+        return None
+    if isinstance(v, ast.Attribute) and v.attr == "cancel":
+        return v.value
+    cb = K.resolve_callable(prog, fi, v)
+    if cb is not None and cb.closure and not cb.free_params():
+        calls = [c for c in calls_in(cb.fnode) if isinstance(c.func, ast.Attribute) and c.func.attr == "cancel" and not c.args]
+        if len(calls) == 1 and isinstance(calls[0].func.value, ast.Name) and cb.outer(calls[0].func.value.id) is not None:
+            always = True
+            if not isinstance(cb.fnode, ast.Lambda):
+                g = CFG(cb.fnode)
+                always = g.must_pass(g.entry, set(g.locate(calls[0])))
+            if always:
+                return cb.outer(calls[0].func.value.id)
+    return None
 
 
 def _e_task_cancel(ctx):
@@ -993,82 +1324,105 @@ def _e_task_cancel(ctx):
     p = params(fi)
     ctx.need(len(p) >= 2 and not writes_to_name(fi.node, p[0]) and not writes_to_name(fi.node, p[1]), "run_driving_pipe signature changed")
     cfg = cfg_of(fi)
+    flow = K.Flow(prog, fi, cfg)
     regs = [(c, b) for c, b in find("%s.on_interest_end($f)" % p[0], fi.node)]
     ok = False
     node = fi.node
-    wrapped = None
     for c, b in regs:
         cn = _n1(ctx, cfg, c, "on_interest_end call")
-        f, fp = _value_at(cfg, fi.node, b["f"], cn)
         node = c
-        if not fp and isinstance(f, ast.Attribute) and f.attr == "cancel":
-            tv, tp = _value_at(cfg, fi.node, f.value, _rn(cfg, f)[0] if _rn(cfg, f) else cn)
-            if not tp and isinstance(tv, ast.Call) and isinstance(tv.func, ast.Attribute) and tv.func.attr in ("create_task", "ensure_future") and tv.args and isinstance(tv.args[0], ast.Call):
-                w = _nested_callable(fi.node, tv.args[0].func)
-                if w is not None and any(isinstance(a, ast.Await) and isinstance(a.value, ast.Name) and a.value.id == p[1] and _closure_ref(w, p[1], p[1]) for a in walk_no_nested(w)):
-                    wrapped = w
-                    ok = cfg.must_pass(cfg.entry, {cn})
+        t = _cancels_task(prog, fi, flow, b["f"], cn)
+        if t is None:
+            continue
+        tv, tp = _single(flow.origins(t, cfg.exit if not _rn(cfg, t) else cn))
+        if tp == () and isinstance(tv, ast.Call) and (chain(tv.func) or "").split(".")[-1] in ("create_task", "ensure_future") and tv.args:
+            co = tv.args[0]
+            awaited = False
+            if isinstance(co, ast.Call):
+                w = K.resolve_callable(prog, fi, co.func)
+                if w is not None and isinstance(w.fnode, ast.AsyncFunctionDef):
+                    awaited = any(isinstance(a, ast.Await) and isinstance(a.value, ast.Name) and isinstance(w.outer(a.value.id), ast.Name) and w.outer(a.value.id).id == p[1] for a in walk_no_nested(w.fnode))
+            else:
+                awaited = _is_param_value(flow, co, flow.site(tv, cn), p[1])
+            if awaited:
+                ok = cfg.must_pass(cfg.entry, {cn})
     ctx.ob("run_driving_pipe cancels the task that awaits the render coroutine when interest in the pipe ends", ok, fi, node, construct=None if regs else "run_driving_pipe")
     # error_to_message forwards loss of interest from the requester's pipe to the pipe the task is bound to
     ef = prog.func("pipe.error_to_message")
     ep = params(ef)
     ctx.need(len(ep) == 2 and not writes_to_name(ef.node, ep[0]), "error_to_message signature changed")
     ecfg = cfg_of(ef)
+    eflow = K.Flow(prog, ef, ecfg)
     rets = [n for n in walk_no_nested(ef.node) if isinstance(n, ast.Return)]
-    ctx.need(len(rets) == 1 and isinstance(rets[0].value, ast.Name), "error_to_message does not return a single local")
-    nxt = rets[0].value.id
-    rn_ = _n1(ctx, ecfg, rets[0], "return")
-    nv, np_ = _value_at(ecfg, ef.node, rets[0].value, rn_)
-    okn = not np_ and isinstance(nv, ast.Call) and _cls_of(ctx, ef, nv.func) == "aiocoap.pipe.Pipe"
+    ctx.need(bool(rets) and all(r.value is not None for r in rets), "error_to_message does not return a pipe")
+    ro = [eflow.origins(r.value, _n1(ctx, ecfg, r, "return")) for r in rets]
+    nv, np_ = _single(ro[0])
+    okn = np_ == () and isinstance(nv, ast.Call) and _cls_of(ctx, ef, nv.func) == "aiocoap.pipe.Pipe" and all(_same_value(o, ro[0]) for o in ro)
     fw = [(c, b) for c, b in find("%s.on_interest_end($f)" % ep[0], ef.node)]
     okf = False
     for c, b in fw:
         cn = _n1(ctx, ecfg, c, "on_interest_end call")
-        v, vp = _value_at(ecfg, ef.node, b["f"], cn)
-        m = match("%s.on_event($h)" % nxt, v) if not vp else None
-        if m is not None and _nested_callable(ef.node, m["h"]) is not None and ecfg.must_pass(ecfg.entry, {cn}):
+        v, vp = _single(eflow.origins(b["f"], cn))
+        m = match("$n.on_event($h, $**k)", v) if vp == () and isinstance(v, ast.AST) else None
+        if m is not None and _same_value(eflow.origins(m["n"], eflow.site(v, cn)), ro[0]) and K.resolve_callable(prog, ef, m["h"]) is not None and ecfg.must_pass(ecfg.entry, {cn}):
             okf = True
     ctx.ob("error_to_message drops the inner pipe's only interest when the requester's pipe ends", okn and okf, ef, fw[0][0] if fw else rets[0])
     cf = prog.func("protocol.Context.render_to_pipe")
     cp = params(cf)
     ccfg = cfg_of(cf)
+    cflow = K.Flow(prog, cf, ccfg)
     runs = [c for c, b in find("run_driving_pipe($*a, $**k)", cf.node)]
     ctx.floor("run_driving_pipe calls in Context.render_to_pipe", len(runs), 1)
     for c in runs:
         cn = _n1(ctx, ccfg, c, "run_driving_pipe call")
         a0 = _kw(c, "pipe", 0)
-        v, vp = _value_at(ccfg, cf.node, a0, cn) if a0 is not None else (None, None)
-        m = match("error_to_message($p, $*r)", v) if v is not None and not vp else None
-        okc = m is not None and isinstance(m["p"], ast.Name) and m["p"].id == cp[0] and _cls_of(ctx, cf, c.func) == "aiocoap.pipe.run_driving_pipe" and _cls_of(ctx, cf, v.func) == "aiocoap.pipe.error_to_message"
+        v, vp = _single(cflow.origins(a0, cn)) if a0 is not None else (None, None)
+        m = match("error_to_message($p, $*r)", v) if isinstance(v, ast.AST) and vp == () else None
+        okc = m is not None and _is_param_value(cflow, m["p"], cflow.site(v, cn), cp[0]) and _cls_of(ctx, cf, c.func) == "aiocoap.pipe.run_driving_pipe" and _cls_of(ctx, cf, v.func) == "aiocoap.pipe.error_to_message"
         ctx.ob("the render task is bound to the pipe whose interest error_to_message ties to the requester's pipe", okc, cf, c)
-    # Pipe: unregistering the last interested handler ends the pipe, which runs the interest-end callbacks
+    # Pipe: unregistering the last interested handler ends the pipe, which runs the interest-end callbacks.
+    # Symbolic paths: on every normal path on which the pipe has not ended already, the remaining interest is examined,
+    # and when there is none the pipe is ended -- whatever the nesting, guard order, early returns or named conditions.
     uf = prog.func("pipe.Pipe._unregister_on_event")
     ucfg = cfg_of(uf)
     ends = [c for c, b in find("self._end()", uf.node)]
-    oku = False
-    for c in ends:
-        cn = _rn(ucfg, c)
-        if cn:
-            gs = [(e, pol) for e, pol, g in ucfg.guards(cn[0])]
-            rest = [e for e, pol in gs if not (match("self._any_interest()", e) is not None and not pol) and not (match("self._event_callbacks is False", e) is not None and not pol)
-                    and not (match("self._event_callbacks is not False", e) is not None and pol)]
-            if any(match("self._any_interest()", e) is not None and not pol for e, pol in gs) and not rest:
-                oku = True
-    ctx.ob("unregistering the last interested handler ends the pipe", oku, uf, ends[0] if ends else uf.node, construct=None if ends else "Pipe._unregister_on_event")
+    oku = bool(ends)
+    why = None
+    if oku:
+        S = K.Sym(prog, uf, ucfg)
+        s0 = K.State()
+        ended = S.formula(_parse("self._event_callbacks is False"), s0)
+        interest = S.formula(_parse("self._any_interest()"), s0)
+        for p_ in S.run(ucfg.entry):
+            if p_.end != "exit" or K.evalf(ended, p_.st.dec) is True:
+                continue
+            t = K.evalf(interest, p_.st.dec)
+            called = any(ev.kind == "call" and ev.meth == "_end" and ev.recv == ("n", "self") for ev in p_.events)
+            if t is None or (t is False and not called):
+                oku = False
+                why = "a path that leaves the pipe open: %s" % ("remaining interest not examined" if t is None else "no interest left, _end() not called")
+                break
+    ctx.ob("unregistering the last interested handler ends the pipe", oku, uf, ends[0] if ends else uf.node, construct=None if ends else "Pipe._unregister_on_event", detail=why)
     nf = prog.func("pipe.Pipe._end")
     ncfg = cfg_of(nf)
+    nflow = K.Flow(prog, nf, ncfg)
     okt = False
     where = nf.node
     for c in calls_in(nf.node):
-        if isinstance(c.func, ast.Name) and len(c.args) == 1 and not c.keywords and _rn(ncfg, c):
-            tv, tp = _value_at(ncfg, nf.node, c.args[0], _rn(ncfg, c)[0])
-            if not tp and isinstance(tv, ast.Call) and chain(tv.func) in ("self.Event", "Pipe.Event"):
+        if len(c.args) == 1 and not c.keywords and _rn(ncfg, c):
+            cn = _rn(ncfg, c)[0]
+            tv, tp = _single(nflow.origins(c.args[0], cn))
+            if tp == () and isinstance(tv, ast.Call) and chain(tv.func) in ("self.Event", "Pipe.Event"):
                 last = _kw(tv, "is_last", 2)
-                it = _comp_iter(nf.node, c.func.id)
-                if it is not None:
-                    iv, ip = _value_at(ncfg, nf.node, it, _rn(ncfg, c)[0])
+                fv, fp_ = _single(nflow.origins(c.func, cn))
+                if isinstance(fv, K.Elem):
                     where = c
-                    if isinstance(last, ast.Constant) and last.value is True and chain(iv) == "self._event_callbacks":
+                    it, _copied = K.unwrap_iter(fv.it)
+                    at_it = (nflow.rn(fv.scope) or [cn])[0] if isinstance(fv.scope, ast.AST) else cn
+                    iv, ip = _single(nflow.origins(it, at_it))
+                    inner = [e for e, pol, g in ncfg.guards(cn) if isinstance(fv.scope, ast.For) and e is not fv.scope and _inside(fv.scope, e)]
+                    if isinstance(last, ast.Constant) and last.value is True and ip == () and isinstance(iv, ast.AST) and chain(iv) == "self._event_callbacks" and fp_ == (0,) and not inner \
+                            and not (isinstance(fv.scope, (ast.ListComp, ast.GeneratorExp, ast.SetComp)) and any(g.ifs for g in fv.scope.generators)):
                         okt = True
     ctx.ob("ending the pipe delivers a final event to every registered callback", okt, nf, where, construct=None if where is not nf.node else "Pipe._end")
     of = prog.func("pipe.Pipe.on_interest_end")
@@ -1076,33 +1430,24 @@ def _e_task_cancel(ctx):
     ocfg = cfg_of(of)
     direct = {i for c in _calls_of_name(of.node, op[0]) for i in _rn(ocfg, c)}
     deferred = set()
+    oflow = K.Flow(prog, of, ocfg)
     for k, n in stores_to(of.node, "self._event_callbacks", nested=False):
-        if k == "append" and n.args and isinstance(n.args[0], ast.Tuple) and len(n.args[0].elts) == 2:
-            fn, flag = n.args[0].elts
-            fnode = _nested_callable(of.node, fn)
-            if fnode is not None and any(isinstance(x, ast.Call) and isinstance(x.func, ast.Name) and x.func.id == op[0] for x in ast.walk(fnode)) \
-                    and any(isinstance(x, ast.Attribute) and x.attr == "is_last" for x in ast.walk(fnode)) and isinstance(flag, ast.Constant) and flag.value is False:
+        if k == "append" and n.args and _rn(ocfg, n):
+            tv, tp = _single(oflow.origins(n.args[0], _rn(ocfg, n)[0]))
+            if not (isinstance(tv, ast.Tuple) and tp == () and len(tv.elts) == 2):
+                continue
+            fn, flag = tv.elts
+            cb = K.resolve_callable(prog, of, fn)
+            if cb is not None and cb.closure and any(isinstance(x, ast.Call) and isinstance(x.func, ast.Name) and isinstance(cb.outer(x.func.id), ast.Name) and cb.outer(x.func.id).id == op[0] for x in ast.walk(cb.fnode)) \
+                    and any(isinstance(x, ast.Attribute) and x.attr == "is_last" for x in ast.walk(cb.fnode)) and isinstance(flag, ast.Constant) and flag.value is False:
                 deferred |= set(_rn(ocfg, n))
     ctx.ob("an interest-end callback is either run at once or queued as a non-interest handler that runs it on the final event", bool(direct) and bool(deferred) and ocfg.must_pass(ocfg.entry, direct | deferred), of, of.node, construct="Pipe.on_interest_end")
-    return wrapped
-
-
-def _comp_iter(fnode, name):
-    """iterable of the comprehension / for loop whose target binds `name`"""
-    for n in walk_no_nested(fnode):
-        if isinstance(n, (ast.ListComp, ast.SetComp, ast.GeneratorExp)):
-            for g in n.generators:
-                if name in names_in(g.target):
-                    return g.iter
-        if isinstance(n, ast.For) and name in names_in(n.target):
-            return n.iter
-    return None
 
 
 @R.clause("C08.e", "termination wiring: override on the same (token, remote), stopper as message-error monitor down to the exchange table and the Reset arm, dispatch_error, shutdown, loss of interest -> task.cancel")
 def e(ctx):
-    fi, cfg, ST, st, val, handler, req = _e_process_request(ctx)
-    _e_monitor(ctx, fi, cfg, ST, st, val, handler, req)
+    fi, cfg, flow, ST, st, so_, handler = _e_process_request(ctx)
+    _e_monitor(ctx, fi, cfg, flow, ST, st, so_, handler)
     _e_message_layer(ctx)
     _e_dispatch_error(ctx)
     _e_shutdown(ctx)
@@ -1113,101 +1458,153 @@ def e(ctx):
 # C08.f
 
 
-def _is_new_future(e):
+def _is_new_future_call(e):
     return isinstance(e, ast.Call) and ((isinstance(e.func, ast.Attribute) and e.func.attr in ("create_future", "Future")) or chain(e.func) == "Future")
 
 
-def _has_await(node):
-    return node is not None and any(isinstance(x, ast.Await) for x in walk_no_nested(node))
+def _is_new_future(flow, e, at=None):
+    """does e denote a freshly created future: `loop.create_future()` / `asyncio.Future()`, possibly behind a local
+    or behind a small helper that returns one"""
+    o = flow.origins(e, at)
+    return bool(o) and all(not p and _is_new_future_call(v) for v, p in o)
 
 
-@R.clause("C08.f", "lossy latest-value hand-over: trigger() re-arms a done future before set_result and marks is_last first; the loop waits, reads, re-arms without an intervening await and renders only for a None result")
-def f(ctx):
+def _last_stmt(cfg, path):
+    """the statement a path ends with: its `return`, else its last statement"""
+    for nid in reversed(path.nodes):
+        if cfg.nodes[nid].kind == "return":
+            return cfg.nodes[nid].ast
+    for nid in reversed(path.nodes):
+        n = cfg.nodes[nid]
+        if n.ast is not None and n.kind in ("stmt", "return", "raise", "test"):
+            return n.ast
+    return None
+
+
+def _trigger_side(ctx):
+    """ServerObservation.trigger, on its symbolic paths: value numbers identify `self._trigger` with any local it
+    was copied to, so `pending = self._trigger; if pending.done(): pending = self._trigger = new(); pending.set_result(r)`
+    and the direct spelling are the same facts."""
     prog = ctx.prog
     tf = prog.func("protocol.ServerObservation.trigger")
     tp = params(tf)
     ctx.need(len(tp) >= 1, "trigger signature changed")
+    flags = [a_.arg for a_ in tf.node.args.kwonlyargs + tf.node.args.args if a_.arg == "is_last"]
+    ctx.need(len(flags) == 1, "trigger() has no is_last parameter")
     cfg = cfg_of(tf)
-    sets = [(c, b) for c, b in find("self._trigger.set_result($r)", tf.node)]
-    ctx.floor("set_result sites in trigger", len(sets), 1)
-    done_t = _truth_nodes(cfg, ast.parse("self._trigger.done()", mode="eval").body, True)
-    done_f = _truth_nodes(cfg, ast.parse("self._trigger.done()", mode="eval").body, False)
-    rearm = {i for k, n in stores_to(tf.node, "self._trigger", nested=False) if k == "assign" and isinstance(n, ast.Assign) and _is_new_future(n.value) for i in _rn(cfg, n)}
-    for c, b in sets:
-        sr = _n1(ctx, cfg, c, "set_result")
-        ctx.ob("trigger() resolves the future with the response it was given", isinstance(b["r"], ast.Name) and b["r"].id == tp[0] and not writes_to_name(tf.node, tp[0]), tf, c)
-        tested = bool(done_t) and sr not in cfg.reach({cfg.entry}, avoid=done_t | done_f, skip_labels=("exc",))
-        ctx.ob("trigger() checks whether the pending future is already done before resolving it", tested, tf, c)
-        ctx.ob("a future that is already done is replaced by a fresh one before set_result (no InvalidStateError, latest value wins)",
-               tested and bool(rearm) and all(cfg.must_pass(t, rearm, to=sr) for t in done_t), tf, c)
-        ctx.ob("set_result is reached on every path of trigger()", cfg.must_pass(cfg.entry, {sr}), tf, c)
-        marks = [n for k, n in stores_to(tf.node, "self._late_deregister", nested=False) if k == "assign" and isinstance(n, ast.Assign) and isinstance(n.value, ast.Constant) and n.value.value is True]
-        flags = [a.arg for a in tf.node.args.kwonlyargs + tf.node.args.args if a.arg == "is_last"]
-        ctx.need(len(flags) == 1, "trigger() has no is_last parameter")
-        ft = _truth_nodes(cfg, ast.Name(id=flags[0], ctx=ast.Load()), True)
-        mn = {i for n in marks for i in _rn(cfg, n)}
-        ctx.ob("trigger(is_last=True) marks the observation as finishing before the loop is woken", bool(ft) and bool(mn) and not writes_to_name(tf.node, flags[0]) and all(cfg.must_pass(t, mn, to=sr) for t in ft)
-               and sr not in cfg.reach({cfg.entry}, avoid=ft | _truth_nodes(cfg, ast.Name(id=flags[0], ctx=ast.Load()), False), skip_labels=("exc",)), tf, marks[0] if marks else c)
-        for n in marks:
-            gs = [(e, pol) for e, pol, g in cfg.guards(_n1(ctx, cfg, n, "mark"))]
-            ctx.ob("the observation is marked finishing only when is_last was requested", any(isinstance(e, ast.Name) and e.id == flags[0] and pol for e, pol in gs), tf, n)
-    init = prog.func("protocol.ServerObservation.__init__")
-    ist = [n for k, n in stores_to(init.node, "self._trigger", nested=False) if k == "assign"]
-    ctx.ob("a ServerObservation starts with an unresolved future", len(ist) == 1 and isinstance(ist[0], ast.Assign) and _is_new_future(ist[0].value), init, ist[0] if ist else init.node, construct=None if ist else "ServerObservation.__init__")
-    lst = [n for k, n in stores_to(init.node, "self._late_deregister", nested=False) if k == "assign"]
-    ctx.ob("a ServerObservation starts as not finishing", len(lst) == 1 and isinstance(lst[0], ast.Assign) and isinstance(lst[0].value, ast.Constant) and lst[0].value.value is False, init, lst[0] if lst else init.node, construct=None if lst else "ServerObservation.__init__")
+    flow = K.Flow(prog, tf, cfg)
+    S = K.Sym(prog, tf, cfg, flow)
+    paths = S.run(cfg.entry)
+    selfname = tf.node.args.args[0].arg
+    State0 = K.State()
+    F0 = S.tok(_parse("%s._trigger" % selfname), State0)
+    L0 = S.formula(_parse("%s._late_deregister" % selfname), State0)
+    flag = S.formula(ast.Name(id=flags[0], ctx=ast.Load()), State0)
+    nsets = 0
+    for p in paths:
+        if p.end != "exit":
+            continue
+        sets = [ev for ev in p.events if ev.kind == "call" and ev.meth == "set_result"]
+        anchor = sets[0].call if sets else (_last_stmt(cfg, p) or tf.node)
+        cur = [ev for ev in sets if ev.recv == ev.tok_of(_parse("%s._trigger" % selfname))]
+        if not ctx.ob("set_result is reached on every path of trigger(), on the future the loop is (or will be) waiting on", len(cur) >= 1, tf, anchor,
+                      construct=None if sets else "ServerObservation.trigger", detail="%d set_result call(s) on the path, %d on the current self._trigger" % (len(sets), len(cur))):
+            continue
+        nsets += 1
+        ctx.ob("trigger() resolves a future at most once per call", len(sets) == 1, tf, sets[-1].call)
+        ev = cur[0]
+        ctx.ob("trigger() resolves the future with the response it was given", len(ev.args) == 1 and ev.args[0] == ("n", tp[0]), tf, ev.call)
+        # the future resolved is not one that may already be done
+        fresh = [st for st in p.events if st.kind == "store" and st.attr == "_trigger" and st.base == ("n", selfname) and st.value == ev.recv and _before(p, st, ev)
+                 and _is_new_future(flow, st.expr if st.expr is not None else st.stmt.value, st.nid)]
+        notdone = K.evalf(ev.formula_of(ast.Call(func=ast.Attribute(value=ev.call.func.value, attr="done", ctx=ast.Load()), args=[], keywords=[])), p.st.dec)
+        ctx.ob("a future that is already done is replaced by a fresh one before set_result (no InvalidStateError, latest value wins)", bool(fresh) or notdone is False, tf, ev.call,
+               detail=None if (fresh or notdone is False) else "set_result on a future that is not known to be pending on this path")
+        if ev.recv == F0:
+            pass
+        else:
+            # replaced: only when the old one was done (an undone future that is replaced would strand the loop's wait)
+            olddone = p.st.dec.get(("t", ("call", ("a", F0, "done", 0), (), (), 0)))
+            ctx.ob("the pending future is replaced only when it is already done", olddone is True, tf, ev.call)
+        # _late_deregister at the time the loop is woken  <=>  old value or is_last
+        lend = ev.formula_of(_parse("%s._late_deregister" % selfname))
+        okl, cex = K.equivalent_under(lend, ("or", (L0, flag)), p.st.dec)
+        marks = [st for st in p.events if st.kind == "store" and st.attr == "_late_deregister"]
+        ctx.ob("trigger(is_last=True) marks the observation as finishing before the loop is woken, and only then", okl, tf, marks[0].stmt if marks else ev.call,
+               detail=None if okl else "_late_deregister at set_result differs from (previous value or is_last) for: %s" % (cex or "this path"))
+    ctx.floor("set_result sites in trigger", nsets, 1)
+    init_f = prog.func("protocol.ServerObservation.__init__")
+    iflow = K.Flow(prog, init_f)
+    ist = [n for k, n in stores_to(init_f.node, "self._trigger", nested=False) if k == "assign"]
+    ctx.ob("a ServerObservation starts with an unresolved future", len(ist) == 1 and isinstance(ist[0], ast.Assign) and _is_new_future(iflow, ist[0].value), init_f, ist[0] if ist else init_f.node, construct=None if ist else "ServerObservation.__init__")
+    lst = [n for k, n in stores_to(init_f.node, "self._late_deregister", nested=False) if k == "assign"]
+    ctx.ob("a ServerObservation starts as not finishing", len(lst) == 1 and isinstance(lst[0], ast.Assign) and isinstance(lst[0].value, ast.Constant) and lst[0].value.value is False, init_f, lst[0] if lst else init_f.node, construct=None if lst else "ServerObservation.__init__")
 
-    # the consuming loop
+
+@R.clause("C08.f", "lossy latest-value hand-over: trigger() re-arms a done future before set_result and marks is_last first; the loop waits, reads, re-arms without an intervening await and renders only for a None result")
+def f(ctx):
+    _trigger_side(ctx)
+    # the consuming loop, per path through one iteration
     P = _obs_parts(ctx)
+    _obs_sym(ctx, P)
     fi, cfg = P.fi, P.cfg
-    fut = "%s._trigger" % P.so
-    W = {i for n in walk_no_nested(P.loop) if isinstance(n, ast.Await) and chain(n.value) == fut for i in _rn(cfg, n)}
-    reads = [c for c, _ in find("%s.result()" % fut, P.loop)]
-    rearms = [n for k, n in stores_to(P.loop, fut, nested=False) if k == "assign"]
+    so = P.so_tok
     inloop = [A for A in P.adds if A.loop is not None]
     anchor = inloop[0].call if inloop else P.loop
-    if not ctx.ob("the notification loop waits on the observation's trigger future", bool(W), fi, anchor):
-        return
-    for A in inloop:
-        ctx.ob("every notification is preceded, in its iteration, by a completed wait on the trigger", A.nid not in cfg.reach({P.head}, avoid=W), fi, A.call)
-    if not ctx.ob("the loop reads the result of the trigger future", len(reads) == 1, fi, anchor, detail="%d reads" % len(reads)):
-        return
-    rd = _n1(ctx, cfg, reads[0], "result read")
-    ctx.ob("the result is read only after the wait completed", rd not in cfg.reach({P.head}, avoid=W) and rd not in W, fi, reads[0])
-    ra = {i for n in rearms if isinstance(n, ast.Assign) and _is_new_future(n.value) for i in _rn(cfg, n)}
-    if not ctx.ob("the loop re-arms the trigger with a fresh future", bool(ra), fi, reads[0]):
-        return
-    AW = {n.id for n in cfg.nodes if n.kind in ("stmt", "return", "test", "for", "with") and cfg.is_reachable(n.id) and _has_await(n.ast if n.kind != "for" else n.ast.iter)}
-    between = cfg.reach({rd}, avoid=ra, skip_labels=("exc",))
-    clean = not (AW & between) and rd not in AW and not (ra & AW)
-    bad = sorted(AW & between)
-    ctx.ob("no await (and no return to the wait) lies between reading the result and re-arming the future: a trigger in between cannot be lost",
-           clean and P.head not in between, fi, cfg.nodes[bad[0]].ast if bad else reads[0])
-    ctx.ob("the re-arming happens after the read", all(rd in cfg.dominators(i) or i == rd for i in ra), fi, rearms[0])
-    renders = [c for c, _ in find("self.render($*a, $**k)", P.loop)]
-    ctx.floor("render calls in the loop", len(renders), 1)
-    rstmts = []
-    for c in renders:
-        rn = _n1(ctx, cfg, c, "render call")
-        ok = False
-        for e_, pol, g in cfg.guards(rn):
-            if isinstance(e_, ast.Compare) and len(e_.ops) == 1 and isinstance(e_.left, ast.Name) and isinstance(e_.comparators[0], ast.Constant) and e_.comparators[0].value is None:
-                isnone = (isinstance(e_.ops[0], (ast.Is, ast.Eq)) and pol) or (isinstance(e_.ops[0], (ast.IsNot, ast.NotEq)) and not pol)
-                ws, live = _reaching(cfg, fi.node, e_.left.id, g)
-                if isnone and not live and [x for x, _ in ws] == [rd] and _bound(ws[0][1], e_.left.id)[1] == ():
-                    ok = True
-        ctx.ob("the loop renders the resource exactly when the trigger carried no ready-made response", ok, fi, c)
-        ctx.ob("the rendering of a notification starts after the trigger was consumed and re-armed (it reflects a state at or after the change)", any(cfg.dominates(i, rn) for i in ra) and rd in cfg.dominators(rn), fi, c)
-        rstmts.append(rn)
-    for A in inloop:
-        if isinstance(A.resp, ast.Name):
-            ws, live = _reaching(cfg, fi.node, A.resp.id, A.nid)
-            ctx.ob("the notification sent is the triggered response or the fresh rendering", not live and bool(ws) and all(x == rd or x in rstmts for x, _ in ws), fi, A.call,
-                   detail="bindings reaching the send: %s" % [stmt_text(w, 60) for _, w in ws])
-        else:
-            ctx.need(False, "notification argument is not a local")
-    # a non-None triggered response must also be possible: the render is not unconditional w.r.t. the read
-    ctx.ob("a triggered response is passed on without re-rendering", any(A.nid in cfg.reach({rd}, avoid=set(rstmts)) for A in inloop), fi, reads[0])
+    renders_all = [c for c, _ in find("self.render($*a, $**k)", P.loop)]
+    ctx.floor("render calls in the loop", len(renders_all), 1)
+    passed_on = False
+    for it in P.iters:
+        q = it.q
+        ev_ = q.events
+
+        def is_trigger(t, upto):
+            """is value t the future held in <servobs>._trigger (as read at event index upto)?"""
+            if t[0] == "a" and t[1] == so and t[2] == "_trigger":
+                return True
+            return any(e.kind == "store" and e.attr == "_trigger" and e.base == so and e.value == t for e in ev_[:upto])
+
+        sends = _sends(P, q)
+        waits = [e for i, e in enumerate(ev_) if e.kind == "await" and is_trigger(e.value, i)]
+        reads = [e for i, e in enumerate(ev_) if e.kind == "call" and e.meth == "result" and not e.call.args and is_trigger(e.recv, i)]
+        rearms = [e for e in ev_ if e.kind == "store" and e.attr == "_trigger" and e.base == so]
+        fresh = [e for e in rearms if _is_new_future(P.flow, e.expr if e.expr is not None else e.stmt.value, e.nid)]
+        renders = [e for e in ev_ if e.kind == "call" and e.meth == "render" and e.recv == ("n", fi.node.args.args[0].arg)]
+        awaits = [e for e in ev_ if e.kind == "await"]
+        here = (sends[0].call if sends else _last_stmt(cfg, q) or anchor)
+        for s in sends:
+            ctx.ob("every notification is preceded, in its iteration, by a completed wait on the trigger", any(_before(q, w, s.ev) for w in waits), fi, s.call)
+        if not sends and not waits:
+            continue
+        if not ctx.ob("the notification loop waits on the observation's trigger future", bool(waits), fi, here):
+            continue
+        if not ctx.ob("the loop reads the result of the trigger future", len(reads) == 1, fi, here, detail="%d reads on a path" % len(reads)):
+            continue
+        rd = reads[0]
+        ctx.ob("the result is read only after the wait completed", _before(q, waits[0], rd), fi, rd.call)
+        if not ctx.ob("the loop re-arms the trigger with a fresh future", bool(fresh), fi, rd.call):
+            continue
+        ra = fresh[0]
+        ctx.ob("the re-arming happens after the read", _before(q, rd, ra), fi, ra.stmt)
+        between = [w for w in awaits if _before(q, rd, w) and _before(q, w, ra)] + [w for w in awaits if w.nid in (rd.nid, ra.nid) and w not in waits]
+        ctx.ob("no await (and no return to the wait) lies between reading the result and re-arming the future: a trigger in between cannot be lost",
+               not between, fi, cfg.nodes[between[0].nid].ast if between else rd.call)
+        ctx.ob("the trigger is re-armed once per wait", len(rearms) == 1, fi, rearms[-1].stmt)
+        # the value read
+        val = ("new", rd.nid, ())
+        isnone = q.st.dec.get(("eq", frozenset([val, ("c", "None")])))
+        rendered = bool(renders)
+        ctx.ob("the loop renders the resource exactly when the trigger carried no ready-made response", isnone is not None and rendered == isnone, fi, (renders[0].call if renders else renders_all[0]),
+               detail="on a path: result is None: %s, rendered: %s" % ({True: "yes", False: "no", None: "not tested"}[isnone], rendered))
+        for r_ in renders:
+            ctx.ob("the rendering of a notification starts after the trigger was consumed and re-armed (it reflects a state at or after the change)", _before(q, ra, r_) and _before(q, rd, r_), fi, r_.call)
+        rvals = {("new", r_.nid, ()) for r_ in renders}
+        for s in sends:
+            okv = s.obj == val or s.obj in rvals
+            ctx.ob("the notification sent is the triggered response or the fresh rendering", okv, fi, s.call)
+            if s.obj == val and not rendered:
+                passed_on = True
+    ctx.ob("a triggered response is passed on without re-rendering", passed_on, fi, anchor)
 
 
 # ---------------------------------------------------------------------------
@@ -1264,7 +1661,7 @@ R.seed("C08.a", F_IF, "            first_response.opt.observe = next_observation
 R.seed("C08.a", F_IF, "                    next_observation_number += 1\n                    response.opt.observe = next_observation_number\n",
        "                    response.opt.observe = next_observation_number\n                    next_observation_number += 1\n", "first notification repeats the initial value")
 R.seed("C08.a", F_IF, "                if not is_last:\n                    next_observation_number += 1", "                if is_last:\n                    next_observation_number += 1", "Observe stored only on the final notification")
-R.seed("C08.b", F_IF, "        finally:\n            servobs._cancellation_callback()", "        except Exception:\n            servobs._cancellation_callback()\n            raise", "callback moved from finally into except: missed on return and on task cancellation")
+R.seed("C08.b", F_IF, "        finally:\n            if servobs._accepted:\n                servobs._cancellation_callback()", "        except Exception:\n            if servobs._accepted:\n                servobs._cancellation_callback()\n            raise", "callback moved from finally into except: missed on return and on task cancellation")
 R.seed("C08.b", F_IF, "        try:\n            first_response = await self.render(pipe.request)\n\n            if (", "        first_response = await self.render(pipe.request)\n        try:\n            if (", "first render outside the try")
 R.seed("C08.b", F_IF, "                if is_last:\n                    return\n", "                if is_last:\n                    servobs._cancellation_callback()\n                    return\n", "callback runs twice")
 R.seed("C08.b", F_PROTO, "        self._cancellation_callback = cancellation_callback\n", "        self._cancellation_callback = lambda: None\n", "accept() drops the resource's callback")
@@ -1303,5 +1700,21 @@ R.seed("C08.f", F_IF, "                servobs._trigger = asyncio.get_running_lo
 R.seed("C08.f", F_IF, "                if response is None:\n                    response = await self.render(pipe.request)\n", "                response = await self.render(pipe.request)\n", "triggered response always replaced by a rendering")
 R.seed("C08.f", F_IF, "                await servobs._trigger\n", "                await asyncio.sleep(0)\n", "loop does not wait for a trigger")
 R.seed("C08.g", F_PROTO, "        self._accepted = False\n", "        self._accepted = True\n", "declined observations are kept open (masked while C08.g is refuted on the analysed tree)")
+
+# seeds for the generalised (path / value-flow) formulations
+R.seed("C08.a", F_IF, "            first_response.opt.observe = next_observation_number = 0\n", "            first_response.opt.observe = next_observation_number = 2**24\n", "initial Observe value outside the 24-bit option range")
+R.seed("C08.a", F_IF, "                    response.opt.observe = next_observation_number\n", "                    first_response.opt.observe = next_observation_number\n", "Observe value stored on an object that is not the one sent")
+R.seed("C08.d", F_IF, "                if is_last:\n                    return\n", "                if servobs._late_deregister:\n                    return\n", "loop goes on after an unsuccessful (final) notification")
+R.seed("C08.d", F_IF, "                is_last = servobs._late_deregister or not response.code.is_successful()", "                is_last = servobs._late_deregister or not first_response.code.is_successful()", "termination decided on the code of another response")
+R.seed("C08.e", F_TM, "        for (_, _r), (_, stopper) in self.incoming_requests.items():", "        for (_r, _), (_, stopper) in self.incoming_requests.items():", "incoming requests selected by token instead of remote")
+R.seed("C08.e", F_TM, "        for (_, _r), (_, stopper) in self.incoming_requests.items():", "        for (_, _r), (stopper, _) in self.incoming_requests.items():", "the pipe is collected instead of its stopper")
+R.seed("C08.e", F_TM, "            (pipe, stop) = self.incoming_requests.pop(key)\n            stop()\n", "            (stop, pipe) = self.incoming_requests.pop(key)\n            stop()\n", "the overridden entry's pipe is called instead of its stopper")
+R.seed("C08.e", F_TM, "            (_, stop) = self.incoming_requests.pop(key)\n", "            (_, stop) = self.incoming_requests[key]\n", "shutdown loop does not drain the table")
+R.seed("C08.e", F_MM, "            self._backlogs[message.remote].append((message, messageerror_monitor))", "            self._backlogs[message.remote].append((message, None))", "monitor lost while the message waits in the backlog")
+R.seed("C08.e", F_MM, "                next_message, messageerror_monitor = self._backlogs[remote].pop(0)\n", "                messageerror_monitor, next_message = self._backlogs[remote].pop(0)\n", "message and monitor swapped when leaving the backlog")
+R.seed("C08.e", F_PIPE, "    pipe.on_interest_end(task.cancel)\n", "    pipe.on_interest_end(lambda: None)\n", "interest end no longer cancels the render task")
+R.seed("C08.f", F_PROTO, "        if self._trigger.done():\n            # we don't care", "        if not self._trigger.done():\n            # we don't care", "a pending future is replaced (the loop waits on the old one for ever), a done one is resolved again")
+R.seed("C08.f", F_IF, "                response = servobs._trigger.result()\n                servobs._trigger = asyncio.get_running_loop().create_future()\n", "                response = servobs._trigger.result()\n", "trigger future never re-armed")
+R.seed("C08.c", F_RES, "        def _cancel(self=self, obs=serverobservation):\n            self._observations.remove(serverobservation)", "        def _cancel(self=self, obs=serverobservation):\n            self._observations.remove(request)", "callback removes another object")
 
 R.seed("C08.h", F_MM, "        messageerror_monitor, next_retransmission = self._active_exchanges.pop(key)\n        # this should be a no-op", "        messageerror_monitor, next_retransmission = self._active_exchanges[key]\n        # this should be a no-op", "timed-out exchange stays 'active': later CON notifications to that endpoint are queued for ever")
